@@ -5,48 +5,27 @@ import Postcard.Props.C17
   multiple of the input length; whatever dynamic encoding accepts, dynamic
   decoding of the produced bytes succeeds and re-encodes to the same bytes.
 
-  Result: all three parts are FALSE of the current code (section I: witnesses,
-  confirmed on the real crate; `dyn_total_false`, `dyn_alloc_bound_false`,
-  `dyn_reencode_false`).  Proved: `dyn_total_partial` (+ `…_panics_only_if`),
-  `dyn_reencode_partial` on `reencOk`; the allocation bound is refuted for
-  `Seq(zero-width)` and its restricted form is left as TODO (section L).
+  State: the model mirrors the REPAIRED code (see Props/C17.lean for the list).
+  * totality: `dyn_total` holds for EVERY schema, JSON value and byte string
+    (section G) — relative to an unbounded stack, see the note at `dyn_total`;
+  * re-encoding: `dyn_reencode_partial` on `reencOk` (section K); the remaining
+    exclusions are real, unrepaired findings, each with a refuting witness
+    (section I): `Option(t)` where `t` can encode a null-like payload
+    (`nullHazard`), duplicate field names in hand-built schemas; the `Schema`
+    kind IS covered;
+  * allocation: refuted for `Seq` of zero-width elements (`alloc_seq_unit`,
+    `dyn_alloc_bound_false`, unrepaired); `dyn_alloc_bound_partial_frag` (sections L, M)
+    for schemas whose `Seq` element types have positive minimum width, on the fragment
+    without `Enum` / `Map` / `Schema` nodes (explicit constants `K = C = allocW s`).
+
+  Helper lemmas live in `namespace Postcard.Dyn`.
 -/
 set_option linter.unusedSimpArgs false
 set_option linter.unusedVariables false
 
-namespace Postcard
+namespace Postcard.Dyn
 
 /-! ## G. totality (no panic) -/
-
-mutual
-/-- `noPanicKinds de s`: no `Schema` node (and, for decoding, no `Char` node) in a
-position the codec can reach.  Map KEY schemas are only compared with
-`String`, never traversed, so they are not restricted. -/
-def noPanicKinds (de : Bool) : Schema → Bool
-  | .schema => false
-  | .char => !de
-  | .option t => noPanicKinds de t
-  | .seq t => noPanicKinds de t
-  | .tuple ts => noPanicKindsList de ts
-  | .map _ v => noPanicKinds de v
-  | .struct _ d => noPanicKindsData de d
-  | .enum _ vs => noPanicKindsVariants de vs
-  | _ => true
-def noPanicKindsList (de : Bool) : List Schema → Bool
-  | [] => true
-  | t :: ts => noPanicKinds de t && noPanicKindsList de ts
-def noPanicKindsData (de : Bool) : SData → Bool
-  | .unit => true
-  | .newtype t => noPanicKinds de t
-  | .tuple ts => noPanicKindsList de ts
-  | .struct fs => noPanicKindsFields de fs
-def noPanicKindsFields (de : Bool) : List SField → Bool
-  | [] => true
-  | .mk _ t :: fs => noPanicKinds de t && noPanicKindsFields de fs
-def noPanicKindsVariants (de : Bool) : List SVariant → Bool
-  | [] => true
-  | .mk _ d :: vs => noPanicKindsData de d && noPanicKindsVariants de vs
-end
 
 /-- a result that is not a panic. -/
 def NP {α : Type} (r : DR α) : Prop := r ≠ .error .panic
@@ -73,8 +52,8 @@ theorem asI64R_np (j : Json) : NP (asI64R j) := by
   unfold asI64R NP; split <;> simp
 theorem asU64R_np (j : Json) : NP (asU64R j) := by
   unfold asU64R NP; split <;> simp
-theorem serStr_np (j : Json) : NP (serStr j) := by
-  unfold serStr NP; split <;> simp
+theorem serStr_np (c : Bool) (j : Json) : NP (serStr c j) := by
+  unfold serStr NP; split <;> (try split) <;> simp
 theorem serByteElems_np : ∀ xs : List Json, NP (serByteElems xs)
   | [] => NP_ok _
   | x :: xs => by
@@ -124,323 +103,262 @@ theorem deKvs_np {f : List Byte → DR (Json × List Byte)} (hf : ∀ bs, NP (f 
     · np_bind (hf _); exact deKvs_np hf n _ _
     · exact NP_err (by decide)
 
-end Postcard
-namespace Postcard
-
 mutual
-theorem np_ser (fo : FloatOps) : (s : Schema) → noPanicKinds false s = true → (j : Json) →
-    NP (dynSer fo s j)
-  | .bool, _, j => by unfold dynSer; split <;> simp [NP]
-  | .i8, _, j => by unfold dynSer; np_bind (getI_np 8 j); exact NP_ok _
-  | .u8, _, j => by unfold dynSer; np_bind (getU_np 8 j); exact NP_ok _
-  | .i16, _, j => by unfold dynSer; np_bind (getI_np 16 j); exact NP_ok _
-  | .i32, _, j => by unfold dynSer; np_bind (getI_np 32 j); exact NP_ok _
-  | .i64, _, j => by unfold dynSer; np_bind (asI64R_np j); exact NP_ok _
-  | .i128, _, j => by unfold dynSer; np_bind (asI64R_np j); exact NP_ok _
-  | .u16, _, j => by unfold dynSer; np_bind (getU_np 16 j); exact NP_ok _
-  | .u32, _, j => by unfold dynSer; np_bind (getU_np 32 j); exact NP_ok _
-  | .u64, _, j => by unfold dynSer; np_bind (asU64R_np j); exact NP_ok _
-  | .u128, _, j => by unfold dynSer; np_bind (asU64R_np j); exact NP_ok _
-  | .usize, _, j => by unfold dynSer; np_bind (getU_np 64 j); exact NP_ok _
-  | .isize, _, j => by unfold dynSer; np_bind (asI64R_np j); exact NP_ok _
-  | .f32, _, j => by unfold dynSer; split <;> simp [NP]
-  | .f64, _, j => by unfold dynSer; split <;> simp [NP]
-  | .char, _, j => by unfold dynSer; exact serStr_np j
-  | .string, _, j => by unfold dynSer; exact serStr_np j
-  | .byteArray, _, j => by
+theorem np_ser (fo : FloatOps) : (s : Schema) → (j : Json) → NP (dynSer fo s j)
+  | .bool, j => by unfold dynSer; split <;> simp [NP]
+  | .i8, j => by unfold dynSer; np_bind (getI_np 8 j); exact NP_ok _
+  | .u8, j => by unfold dynSer; np_bind (getU_np 8 j); exact NP_ok _
+  | .i16, j => by unfold dynSer; np_bind (getI_np 16 j); exact NP_ok _
+  | .i32, j => by unfold dynSer; np_bind (getI_np 32 j); exact NP_ok _
+  | .i64, j => by unfold dynSer; np_bind (asI64R_np j); exact NP_ok _
+  | .i128, j => by
+    unfold dynSer; split
+    · exact NP_ok _
+    · np_bind (asU64R_np j); exact NP_ok _
+  | .u16, j => by unfold dynSer; np_bind (getU_np 16 j); exact NP_ok _
+  | .u32, j => by unfold dynSer; np_bind (getU_np 32 j); exact NP_ok _
+  | .u64, j => by unfold dynSer; np_bind (asU64R_np j); exact NP_ok _
+  | .u128, j => by unfold dynSer; np_bind (asU64R_np j); exact NP_ok _
+  | .usize, j => by unfold dynSer; np_bind (getU_np 64 j); exact NP_ok _
+  | .isize, j => by unfold dynSer; np_bind (asI64R_np j); exact NP_ok _
+  | .f32, j => by unfold dynSer; split <;> (try split) <;> simp [NP]
+  | .f64, j => by unfold dynSer; split <;> simp [NP]
+  | .char, j => by unfold dynSer; exact serStr_np _ j
+  | .string, j => by unfold dynSer; exact serStr_np _ j
+  | .byteArray, j => by
     unfold dynSer; split
     · simp [NP]
     · np_bind (serByteElems_np _); exact NP_ok _
-  | .option t, h, j => by
-    simp [noPanicKinds] at h
+  | .option t, j => by
     unfold dynSer; split
     · exact NP_ok _
-    · np_bind (np_ser fo t h j); exact NP_ok _
-  | .unit, _, j => by unfold dynSer; exact NP_ok _
-  | .seq t, h, j => by
-    simp [noPanicKinds] at h
+    · np_bind (np_ser fo t j); exact NP_ok _
+  | .unit, j => by unfold dynSer; exact NP_ok _
+  | .seq t, j => by
     unfold dynSer; split
     · simp [NP]
-    · np_bind (serAll_np (np_ser fo t h) _); exact NP_ok _
-  | .tuple [], _, j => by
-    unfold dynSer; split
-    · simp [NP]
-    · split
-      · simp [NP]
-      · simp [dynSerZip, NP]
-  | .tuple [t], h, j => by
-    simp [noPanicKinds, noPanicKindsList] at h
-    unfold dynSer; exact np_ser fo t h j
-  | .tuple (t :: t' :: ts), h, j => by
-    simp only [noPanicKinds] at h
+    · np_bind (serAll_np (np_ser fo t) _); exact NP_ok _
+  | .tuple ts, j => by
     unfold dynSer; split
     · simp [NP]
     · split
       · simp [NP]
-      · exact np_zip fo _ h _
-  | .map k v, h, j => by
-    simp [noPanicKinds] at h
+      · exact np_zip fo ts _
+  | .map k v, j => by
     unfold dynSer; split
     · split
       · simp [NP]
-      · np_bind (serKvs_np (np_ser fo v h) _); exact NP_ok _
+      · np_bind (serKvs_np (np_ser fo v) _); exact NP_ok _
     · simp [NP]
-  | .struct _ .unit, _, j => by unfold dynSer; exact NP_ok _
-  | .struct _ (.newtype t), h, j => by
-    simp [noPanicKinds, noPanicKindsData] at h
-    unfold dynSer; exact np_ser fo t h j
-  | .struct _ (.tuple []), _, j => by
+  | .struct _ .unit, j => by unfold dynSer; exact NP_ok _
+  | .struct _ (.newtype t), j => by unfold dynSer; exact np_ser fo t j
+  | .struct _ (.tuple ts), j => by
     unfold dynSer; split
     · simp [NP]
     · split
       · simp [NP]
-      · simp [dynSerZip, NP]
-  | .struct _ (.tuple [t]), h, j => by
-    simp [noPanicKinds, noPanicKindsData, noPanicKindsList] at h
-    unfold dynSer; exact np_ser fo t h j
-  | .struct _ (.tuple (t :: t' :: ts)), h, j => by
-    simp only [noPanicKinds, noPanicKindsData] at h
+      · exact np_zip fo ts _
+  | .struct _ (.struct fs), j => by
     unfold dynSer; split
     · simp [NP]
     · split
       · simp [NP]
-      · exact np_zip fo _ h _
-  | .struct _ (.struct fs), h, j => by
-    simp only [noPanicKinds, noPanicKindsData] at h
-    unfold dynSer; split
-    · simp [NP]
-    · split
-      · simp [NP]
-      · exact np_fields fo fs h _
-  | .enum _ vs, h, j => by
-    simp only [noPanicKinds] at h
+      · exact np_fields fo fs _
+  | .enum _ vs, j => by
     unfold dynSer; split
     · exact dynSerUnitVariant_np _ _ _
     · split
-      · exact np_variant fo vs h _ _ _
+      · exact np_variant fo vs _ _ _
       · simp [NP]
       · simp [NP]
-  | .schema, h, _ => by simp [noPanicKinds] at h
-theorem np_zip (fo : FloatOps) : (ts : List Schema) → noPanicKindsList false ts = true →
-    (xs : List Json) → NP (dynSerZip fo ts xs)
-  | [], _, _ => by simp [dynSerZip, NP]
-  | _ :: _, _, [] => by simp [dynSerZip, NP]
-  | t :: ts, h, x :: xs => by
-    simp [noPanicKindsList] at h
+  | .schema, j => by unfold dynSer; split <;> simp [NP]
+theorem np_zip (fo : FloatOps) : (ts : List Schema) → (xs : List Json) → NP (dynSerZip fo ts xs)
+  | [], _ => by simp [dynSerZip, NP]
+  | _ :: _, [] => by simp [dynSerZip, NP]
+  | t :: ts, x :: xs => by
     unfold dynSerZip
-    np_bind (np_ser fo t h.1 x); np_bind (np_zip fo ts h.2 xs); exact NP_ok _
-theorem np_fields (fo : FloatOps) : (fs : List SField) → noPanicKindsFields false fs = true →
+    np_bind (np_ser fo t x); np_bind (np_zip fo ts xs); exact NP_ok _
+theorem np_fields (fo : FloatOps) : (fs : List SField) →
     (kvs : List (List Byte × Json)) → NP (dynSerFields fo fs kvs)
-  | [], _, _ => by simp [dynSerFields, NP]
-  | .mk n t :: fs, h, kvs => by
-    simp [noPanicKindsFields] at h
+  | [], _ => by simp [dynSerFields, NP]
+  | .mk n t :: fs, kvs => by
     unfold dynSerFields
     split
     · simp [NP]
-    · np_bind (np_ser fo t h.1 _); np_bind (np_fields fo fs h.2 kvs); exact NP_ok _
-theorem np_variant (fo : FloatOps) : (vs : List SVariant) → noPanicKindsVariants false vs = true →
+    · np_bind (np_ser fo t _); np_bind (np_fields fo fs kvs); exact NP_ok _
+theorem np_variant (fo : FloatOps) : (vs : List SVariant) →
     (idx : Nat) → (k : List Byte) → (v : Json) → NP (dynSerVariant fo vs idx k v)
-  | [], _, _, _, _ => by simp [dynSerVariant, NP]
-  | .mk n d :: rest, h, idx, k, v => by
-    simp only [noPanicKindsVariants, Bool.and_eq_true] at h
+  | [], _, _, _ => by simp [dynSerVariant, NP]
+  | .mk n d :: rest, idx, k, v => by
     rw [dynSerVariant.eq_def]; dsimp only
     split
-    · match d, h.1 with
-      | .unit, _ => exact NP_ok _
-      | .newtype t, hd =>
-        simp only [noPanicKindsData] at hd
+    · match d with
+      | .unit => exact NP_ok _
+      | .newtype t =>
         dsimp only
-        np_bind (np_ser fo t hd v); exact NP_ok _
-      | .tuple [], _ =>
+        np_bind (np_ser fo t v); exact NP_ok _
+      | .tuple ts =>
         dsimp only; split
         · simp [NP]
         · split
           · simp [NP]
-          · simp [dynSerZip, NP]
-      | .tuple [t], hd =>
-        simp [noPanicKindsData, noPanicKindsList] at hd
-        dsimp only
-        np_bind (np_ser fo t hd v); exact NP_ok _
-      | .tuple (t :: t' :: ts), hd =>
-        simp only [noPanicKindsData] at hd
+          · np_bind (np_zip fo ts _); exact NP_ok _
+      | .struct fs =>
         dsimp only; split
         · simp [NP]
         · split
           · simp [NP]
-          · np_bind (np_zip fo _ hd _); exact NP_ok _
-      | .struct fs, hd =>
-        simp only [noPanicKindsData] at hd
-        dsimp only; split
-        · simp [NP]
-        · split
-          · simp [NP]
-          · np_bind (np_fields fo fs hd _); exact NP_ok _
-    · exact np_variant fo rest h.2 _ _ _
+          · np_bind (np_fields fo fs _); exact NP_ok _
+    · exact np_variant fo rest _ _ _
 end
 
-end Postcard
-namespace Postcard
-
 mutual
-theorem np_de (fo : FloatOps) : (s : Schema) → noPanicKinds true s = true → (bs : List Byte) →
-    NP (dynDe fo s bs)
-  | .bool, _, bs => by
+theorem np_de (fo : FloatOps) : (s : Schema) → (bs : List Byte) → NP (dynDe fo s bs)
+  | .bool, bs => by
     unfold dynDe; np_bind (dynTakeOne_np bs)
     split
     · exact NP_ok _
     · split <;> simp [NP]
-  | .i8, _, bs => by unfold dynDe; np_bind (dynTakeOne_np bs); exact NP_ok _
-  | .u8, _, bs => by unfold dynDe; np_bind (dynTakeOne_np bs); exact NP_ok _
-  | .i16, _, bs => by unfold dynDe; np_bind (dynTakeVarint_np 16 bs); exact NP_ok _
-  | .i32, _, bs => by unfold dynDe; np_bind (dynTakeVarint_np 32 bs); exact NP_ok _
-  | .i64, _, bs => by unfold dynDe; np_bind (dynTakeVarint_np 64 bs); exact NP_ok _
-  | .i128, _, bs => by
+  | .i8, bs => by unfold dynDe; np_bind (dynTakeOne_np bs); exact NP_ok _
+  | .u8, bs => by unfold dynDe; np_bind (dynTakeOne_np bs); exact NP_ok _
+  | .i16, bs => by unfold dynDe; np_bind (dynTakeVarint_np 16 bs); exact NP_ok _
+  | .i32, bs => by unfold dynDe; np_bind (dynTakeVarint_np 32 bs); exact NP_ok _
+  | .i64, bs => by unfold dynDe; np_bind (dynTakeVarint_np 64 bs); exact NP_ok _
+  | .i128, bs => by
     unfold dynDe; np_bind (dynTakeVarint_np 128 bs)
-    dsimp only; split <;> simp [NP]
-  | .u16, _, bs => by unfold dynDe; np_bind (dynTakeVarint_np 16 bs); exact NP_ok _
-  | .u32, _, bs => by unfold dynDe; np_bind (dynTakeVarint_np 32 bs); exact NP_ok _
-  | .u64, _, bs => by unfold dynDe; np_bind (dynTakeVarint_np 64 bs); exact NP_ok _
-  | .u128, _, bs => by
+    dsimp only; split
+    · simp [NP]
+    · split <;> simp [NP]
+  | .u16, bs => by unfold dynDe; np_bind (dynTakeVarint_np 16 bs); exact NP_ok _
+  | .u32, bs => by unfold dynDe; np_bind (dynTakeVarint_np 32 bs); exact NP_ok _
+  | .u64, bs => by unfold dynDe; np_bind (dynTakeVarint_np 64 bs); exact NP_ok _
+  | .u128, bs => by
     unfold dynDe; np_bind (dynTakeVarint_np 128 bs)
     split <;> simp [NP]
-  | .usize, _, bs => by unfold dynDe; np_bind (dynTakeVarint_np 64 bs); exact NP_ok _
-  | .isize, _, bs => by unfold dynDe; np_bind (dynTakeVarint_np 64 bs); exact NP_ok _
-  | .f32, _, bs => by
+  | .usize, bs => by unfold dynDe; np_bind (dynTakeVarint_np 64 bs); exact NP_ok _
+  | .isize, bs => by unfold dynDe; np_bind (dynTakeVarint_np 64 bs); exact NP_ok _
+  | .f32, bs => by
     unfold dynDe; np_bind (dynTakeN_np 4 bs)
     split <;> simp [NP]
-  | .f64, _, bs => by
+  | .f64, bs => by
     unfold dynDe; np_bind (dynTakeN_np 8 bs)
     split <;> simp [NP]
-  | .char, h, _ => by simp [noPanicKinds] at h
-  | .string, _, bs => by
+  | .char, bs => by
+    unfold dynDe; np_bind (dynTakeVarint_np 64 bs); np_bind (dynTakeN_np _ _)
+    split
+    · split <;> simp [NP]
+    · simp [NP]
+  | .string, bs => by
     unfold dynDe; np_bind (dynTakeVarint_np 64 bs); np_bind (dynTakeN_np _ _)
     split <;> simp [NP]
-  | .byteArray, _, bs => by
+  | .byteArray, bs => by
     unfold dynDe; np_bind (dynTakeVarint_np 64 bs); np_bind (dynTakeN_np _ _); exact NP_ok _
-  | .option t, h, bs => by
-    simp [noPanicKinds] at h
+  | .option t, bs => by
     unfold dynDe; np_bind (dynTakeOne_np bs)
     split
     · exact NP_ok _
     · split
-      · exact np_de fo t h _
+      · exact np_de fo t _
       · simp [NP]
-  | .unit, _, bs => by unfold dynDe; exact NP_ok _
-  | .seq t, h, bs => by
-    simp [noPanicKinds] at h
+  | .unit, bs => by unfold dynDe; exact NP_ok _
+  | .seq t, bs => by
     unfold dynDe; np_bind (dynTakeVarint_np 64 bs)
-    np_bind (deN_np (np_de fo t h) _ _); exact NP_ok _
-  | .tuple [], _, bs => by unfold dynDe; exact NP_ok _
-  | .tuple [t], h, bs => by
-    simp [noPanicKinds, noPanicKindsList] at h
-    unfold dynDe; exact np_de fo t h bs
-  | .tuple (t :: t' :: ts), h, bs => by
-    simp only [noPanicKinds] at h
-    unfold dynDe; np_bind (np_deList fo _ h bs); exact NP_ok _
-  | .map k v, h, bs => by
-    simp [noPanicKinds] at h
+    np_bind (deN_np (np_de fo t) _ _); exact NP_ok _
+  | .tuple ts, bs => by
+    unfold dynDe; np_bind (np_deList fo ts bs); exact NP_ok _
+  | .map k v, bs => by
     unfold dynDe; split
     · np_bind (dynTakeVarint_np 64 bs)
-      np_bind (deKvs_np (np_de fo v h) _ _ _); exact NP_ok _
+      np_bind (deKvs_np (np_de fo v) _ _ _); exact NP_ok _
     · simp [NP]
-  | .struct _ .unit, _, bs => by unfold dynDe; exact NP_ok _
-  | .struct _ (.newtype t), h, bs => by
-    simp [noPanicKinds, noPanicKindsData] at h
-    unfold dynDe; exact np_de fo t h bs
-  | .struct _ (.tuple []), _, bs => by unfold dynDe; exact NP_ok _
-  | .struct _ (.tuple [t]), h, bs => by
-    simp [noPanicKinds, noPanicKindsData, noPanicKindsList] at h
-    unfold dynDe; exact np_de fo t h bs
-  | .struct _ (.tuple (t :: t' :: ts)), h, bs => by
-    simp only [noPanicKinds, noPanicKindsData] at h
-    unfold dynDe; np_bind (np_deList fo _ h bs); exact NP_ok _
-  | .struct _ (.struct fs), h, bs => by
-    simp only [noPanicKinds, noPanicKindsData] at h
-    unfold dynDe; np_bind (np_deFields fo fs h [] bs); exact NP_ok _
-  | .enum _ vs, h, bs => by
-    simp only [noPanicKinds] at h
+  | .struct _ .unit, bs => by unfold dynDe; exact NP_ok _
+  | .struct _ (.newtype t), bs => by unfold dynDe; exact np_de fo t bs
+  | .struct _ (.tuple ts), bs => by
+    unfold dynDe; np_bind (np_deList fo ts bs); exact NP_ok _
+  | .struct _ (.struct fs), bs => by
+    unfold dynDe; np_bind (np_deFields fo fs [] bs); exact NP_ok _
+  | .enum _ vs, bs => by
     unfold dynDe; np_bind (dynTakeVarint_np 64 bs)
-    exact np_deVariant fo vs h _ _
-  | .schema, h, _ => by simp [noPanicKinds] at h
-theorem np_deList (fo : FloatOps) : (ts : List Schema) → noPanicKindsList true ts = true →
-    (bs : List Byte) → NP (dynDeList fo ts bs)
-  | [], _, _ => by simp [dynDeList, NP]
-  | t :: ts, h, bs => by
-    simp [noPanicKindsList] at h
+    exact np_deVariant fo vs _ _
+  | .schema, bs => by
+    unfold dynDe
+    split
+    · next heq => exact absurd heq (decOwnedBytes_no_panic bs)
+    · simp [NP]
+    · exact NP_ok _
+theorem np_deList (fo : FloatOps) : (ts : List Schema) → (bs : List Byte) → NP (dynDeList fo ts bs)
+  | [], _ => by simp [dynDeList, NP]
+  | t :: ts, bs => by
     unfold dynDeList
-    np_bind (np_de fo t h.1 bs); np_bind (np_deList fo ts h.2 _); exact NP_ok _
-theorem np_deFields (fo : FloatOps) : (fs : List SField) → noPanicKindsFields true fs = true →
+    np_bind (np_de fo t bs); np_bind (np_deList fo ts _); exact NP_ok _
+theorem np_deFields (fo : FloatOps) : (fs : List SField) →
     (acc : List (List Byte × Json)) → (bs : List Byte) → NP (dynDeFields fo fs acc bs)
-  | [], _, _, _ => by simp [dynDeFields, NP]
-  | .mk n t :: fs, h, acc, bs => by
-    simp [noPanicKindsFields] at h
+  | [], _, _ => by simp [dynDeFields, NP]
+  | .mk n t :: fs, acc, bs => by
     unfold dynDeFields
-    np_bind (np_de fo t h.1 bs); exact np_deFields fo fs h.2 _ _
-theorem np_deVariant (fo : FloatOps) : (vs : List SVariant) → noPanicKindsVariants true vs = true →
+    np_bind (np_de fo t bs); exact np_deFields fo fs _ _
+theorem np_deVariant (fo : FloatOps) : (vs : List SVariant) →
     (k : Nat) → (bs : List Byte) → NP (dynDeVariant fo vs k bs)
-  | [], _, _, _ => by simp [dynDeVariant, NP]
-  | .mk n d :: rest, h, 0, bs => by
-    simp only [noPanicKindsVariants, Bool.and_eq_true] at h
+  | [], _, _ => by simp [dynDeVariant, NP]
+  | .mk n d :: rest, 0, bs => by
     rw [dynDeVariant.eq_def]; dsimp only
-    match d, h.1 with
-    | .unit, _ => exact NP_ok _
-    | .newtype t, hd =>
-      simp only [noPanicKindsData] at hd
+    match d with
+    | .unit => exact NP_ok _
+    | .newtype t =>
       dsimp only
-      np_bind (np_de fo t hd bs); exact NP_ok _
-    | .tuple [], _ => exact NP_ok _
-    | .tuple [t], hd =>
-      simp [noPanicKindsData, noPanicKindsList] at hd
+      np_bind (np_de fo t bs); exact NP_ok _
+    | .tuple ts =>
       dsimp only
-      np_bind (np_de fo t hd bs); exact NP_ok _
-    | .tuple (t :: t' :: ts), hd =>
-      simp only [noPanicKindsData] at hd
+      np_bind (np_deList fo ts bs); exact NP_ok _
+    | .struct fs =>
       dsimp only
-      np_bind (np_deList fo _ hd bs); exact NP_ok _
-    | .struct fs, hd =>
-      simp only [noPanicKindsData] at hd
-      dsimp only
-      np_bind (np_deFields fo fs hd [] bs); exact NP_ok _
-  | .mk n d :: rest, h, k + 1, bs => by
-    simp only [noPanicKindsVariants, Bool.and_eq_true] at h
+      np_bind (np_deFields fo fs [] bs); exact NP_ok _
+  | .mk n d :: rest, k + 1, bs => by
     rw [dynDeVariant.eq_def]
-    exact np_deVariant fo rest h.2 k bs
+    exact np_deVariant fo rest k bs
 end
 
-end Postcard
+end Postcard.Dyn
 
-namespace Postcard
+namespace Postcard.Dyn
 
-/-! ## I. refuting witnesses for C18 (totality, allocation bound, re-encoding)
+/-! ## I. witnesses: the former panics (repaired) and the UNREPAIRED findings
 
 All confirmed on the real crate (scratch crate linking /repo/source/postcard-dyn). -/
 
 section Witnesses
 variable (fo : FloatOps)
 
-/-! ### panics -/
+/-! ### repaired: no `todo!()` is left -/
 
-/-- decoding under `Char` panics on EVERY input (`todo!()`), even the empty one. -/
-theorem dynDe_char_panics (bs : List Byte) : dynDe fo .char bs = .error .panic := rfl
-/-- `Schema` panics in both directions on every input. -/
-theorem dynSer_schema_panics (j : Json) : dynSer fo .schema j = .error .panic := rfl
-theorem dynDe_schema_panics (bs : List Byte) : dynDe fo .schema bs = .error .panic := rfl
-/-- the panic is input dependent below other nodes: `Option(Schema)`. -/
-example : dynDe fo (.option .schema) [0] = .ok (.null, []) := rfl
-example : dynDe fo (.option .schema) [1] = .error .panic := rfl
-example : dynSer fo (.option .schema) .null = .ok [0] := rfl
-example : dynSer fo (.option .schema) (.posInt 1) = .error .panic := rfl
-/-- a map KEY schema is never traversed: no panic although `Schema`/`Char` occur. -/
+/-- `Char` decodes (repair 1); the empty input is an ordinary error. -/
+example : dynDe fo .char [] = .error .unexpectedEnd := rfl
+example : dynDe fo .char [1, 97] = .ok (.str [97], []) := rfl
+/-- `Schema` in both directions (repair 3). -/
+example : dynSer fo .schema .null = .error .schemaMismatch := rfl
+example : dynDe fo .schema [] = .error .schemaMismatch := rfl
+example : dynDe fo (.option .schema) [1] = .error .schemaMismatch := rfl
+example : dynSer fo (.option .schema) (.posInt 1) = .error .schemaMismatch := rfl
+example : dynDe fo (.option .schema) [1, 19] = .ok (.str (kindName .unit), []) := rfl
+/-- a map KEY schema is never traversed. -/
 example : dynDe fo (.map .char .schema) [0] = .error .shouldSupportButDont := rfl
+/-- `F32` overflow is refused by the encoder (repair 6) instead of producing `+inf` bytes
+that the decoder rejects.  For any `fo` that rounds like IEEE-754 on `1e300`. -/
+example (h0 : fo.isFinite64 0x7E37E43C8800759C = true)
+    (h1 : fo.f64ToF32 0x7E37E43C8800759C = 0x7F800000)       -- 1e300 as f32 = +inf
+    (h2 : fo.isFinite32 0x7F800000 = false) :
+    dynSer fo .f32 (.float 0x7E37E43C8800759C) = .error .schemaMismatch := by
+  simp [dynSer, Json.asF64, h0, h1, h2]
+/-- tuples of arity 0 re-encode (repair 4). -/
+example : dynSer fo (.tuple []) (.arr []) = .ok [] ∧ dynDe fo (.tuple []) [] = .ok (.arr [], []) :=
+  ⟨rfl, rfl⟩
+example : dynSer fo (.seq (.tuple [])) (.arr [.arr [], .arr []]) = .ok [2] ∧
+    dynDe fo (.seq (.tuple [])) [2] = .ok (.arr [.arr [], .arr []], []) := ⟨rfl, rfl⟩
+example : let s : Schema := .enum [69] [.mk [65] .unit, .mk [67] (.tuple [])]
+    dynSer fo s (.obj [([67], .arr [])]) = .ok [1] ∧
+    dynDe fo s [1] = .ok (.obj [([67], .arr [])], []) := ⟨rfl, rfl⟩
 
-/-- refutation of the unrestricted `dyn_total`. -/
-theorem dyn_total_false :
-    ¬ (∀ (fo : FloatOps) (s : Schema) (j : Json) (bs : List Byte),
-        dynSer fo s j ≠ .error .panic ∧ dynDe fo s bs ≠ .error .panic) := by
-  intro h
-  exact (h ⟨id, id, id, fun _ => 0, fun _ => true, fun _ => true⟩ .schema .null []).1 rfl
-
-/-! ### allocation: `Seq` of a zero-width element -/
+/-! ### UNREPAIRED: allocation — `Seq` of a zero-width element -/
 
 theorem allocN_unit : ∀ (n : Nat) (bs : List Byte),
     allocN (allocDyn fo .unit) (dynDe fo .unit) n bs = n
@@ -458,7 +376,16 @@ theorem deN_unit : ∀ (n : Nat) (bs : List Byte),
     have h2 : dynDe fo .unit bs = .ok (.null, bs) := rfl
     simp [deN, h2, deN_unit n bs, List.replicate_succ]
 
-/-- for every `n < 2^64` there is an input of at most 10 bytes (the varint of
+end Witnesses
+end Postcard.Dyn
+
+namespace Postcard
+open Dyn
+
+section Witnesses
+variable (fo : FloatOps)
+
+/-- UNREPAIRED.  For every `n < 2^64` there is an input of at most 10 bytes (the varint of
 `n`) on which decoding `Seq(Unit)` succeeds with `n` `Value::Null`s in a `Vec`:
 `n + 1` `Value`s from `≤ 10` bytes.  (2^24 + 1 from the 4 bytes `80 80 80 08`;
 measured on the real crate: 16 777 216 values, 2.8 s.) -/
@@ -477,8 +404,8 @@ theorem alloc_seq_unit {n : Nat} (h : n < 2 ^ 64) :
 
 example : encVarint 64 (2 ^ 24) = [0x80, 0x80, 0x80, 0x08] := by decide
 
-/-- no bound `K * len + C` with `10 K + C < 2^64` holds: refutes `dyn_alloc_bound` for
-every "constant multiple" of practical size. -/
+/-- UNREPAIRED.  No bound `K * len + C` with `10 K + C < 2^64` holds for `Seq(Unit)`: refutes
+`dyn_alloc_bound` for every "constant multiple" of practical size. -/
 theorem dyn_alloc_bound_false (K C : Nat) (h : 10 * K + C + 1 < 2 ^ 64) :
     ¬ (∀ bs : List Byte, allocDyn fo (.seq .unit) bs ≤ K * bs.length + C) := by
   intro hb
@@ -489,20 +416,7 @@ theorem dyn_alloc_bound_false (K C : Nat) (h : 10 * K + C + 1 < 2 ^ 64) :
   have : K * (encVarint 64 (10 * K + C)).length ≤ K * 10 := Nat.mul_le_mul_left K hl
   omega
 
-/-! ### re-encoding -/
-
-/-- an f64 too large for f32 (`1e300`) is encoded as `+inf`, which the decoder
-refuses.  Stated for any `fo` that rounds like IEEE-754 on these three values. -/
-theorem witness_reencode_f32
-    (h1 : fo.f64ToF32 0x7E37E43C8800759C = 0x7F800000)       -- 1e300 as f32 = +inf
-    (h2 : fo.f32ToF64 0x7F800000 = 0x7FF0000000000000)       -- +inf as f64 = +inf
-    (h3 : fo.isFinite64 0x7FF0000000000000 = false) :
-    dynSer fo .f32 (.float 0x7E37E43C8800759C) = .ok [0, 0, 0x80, 0x7F] ∧
-    dynDe fo .f32 [0, 0, 0x80, 0x7F] = .error .schemaMismatch := by
-  constructor
-  · simp only [dynSer, Json.asF64, h1]; exact congrArg Except.ok (by decide)
-  · have : ofLeBytes [0, 0, 0x80, 0x7F] = 0x7F800000 := by decide
-    simp [dynDe, dynTakeN, this, h2, Json.numFromF64, h3]
+/-! ### UNREPAIRED: re-encoding -/
 
 /-- `Option(Unit)`: any non-null JSON encodes as `[1]`, decodes as `null`, re-encodes as `[0]`. -/
 theorem witness_reencode_option_unit :
@@ -510,32 +424,30 @@ theorem witness_reencode_option_unit :
     dynDe fo (.option .unit) [1] = .ok (.null, []) ∧
     dynSer fo (.option .unit) .null = .ok [0] := ⟨rfl, rfl, rfl⟩
 
-/-- `Tuple([])` accepts `[]`, decodes `null`, which it refuses to re-encode. -/
-theorem witness_reencode_tuple0 :
-    dynSer fo (.tuple []) (.arr []) = .ok [] ∧
-    dynDe fo (.tuple []) [] = .ok (.null, []) ∧
-    dynSer fo (.tuple []) .null = .error .schemaMismatch := ⟨rfl, rfl, rfl⟩
+/-- the same below other nodes: `Option(Option(U8))` is fine, `Option(Option(Unit))` and
+`Option(struct S;)` are not. -/
+theorem witness_reencode_option_nested :
+    dynSer fo (.option (.option .unit)) (.posInt 5) = .ok [1, 1] ∧
+    dynDe fo (.option (.option .unit)) [1, 1] = .ok (.null, []) ∧
+    dynSer fo (.option (.option .unit)) .null = .ok [0] ∧
+    dynSer fo (.option (.struct [83] .unit)) (.bool true) = .ok [1] ∧
+    dynDe fo (.option (.struct [83] .unit)) [1] = .ok (.null, []) ∧
+    dynSer fo (.option (.struct [83] .unit)) .null = .ok [0] := ⟨rfl, rfl, rfl, rfl, rfl, rfl⟩
 
-/-- same through a sequence: `Seq(Tuple([]))`, `[[], []]` → `[2]` → `[null, null]` → refused. -/
-theorem witness_reencode_seq_tuple0 :
-    dynSer fo (.seq (.tuple [])) (.arr [.arr [], .arr []]) = .ok [2] ∧
-    dynDe fo (.seq (.tuple [])) [2] = .ok (.arr [.null, .null], []) ∧
-    dynSer fo (.seq (.tuple [])) (.arr [.null, .null]) = .error .schemaMismatch := ⟨rfl, rfl, rfl⟩
-
-/-- NEW: zero-field tuple variant: `{"C": []}` → `[1]` → `{"C": null}` → refused. -/
-theorem witness_reencode_tupleVariant0 :
-    let s : Schema := .enum [69] [.mk [65] .unit, .mk [67] (.tuple [])]
-    dynSer fo s (.obj [([67], .arr [])]) = .ok [1] ∧
-    dynDe fo s [1] = .ok (.obj [([67], .null)], []) ∧
-    dynSer fo s (.obj [([67], .null)]) = .error .schemaMismatch := ⟨rfl, rfl, rfl⟩
-
-/-- NEW (hand-built schemas only): two fields with the same name:
+/-- (hand-built schemas only) two fields with the same name:
 `{"a": 1, "b": 2}` → `[1, 1]` → `{"a": 1}` → refused (`val.len() != nvs.len()`). -/
 theorem witness_reencode_dup_fields :
     let s : Schema := .struct [83] (.struct [.mk [97] .u8, .mk [97] .u8])
     dynSer fo s (.obj [([97], .posInt 1), ([98], .posInt 2)]) = .ok [1, 1] ∧
     dynDe fo s [1, 1] = .ok (.obj [([97], .posInt 1)], []) ∧
     dynSer fo s (.obj [([97], .posInt 1)]) = .error .schemaMismatch := ⟨rfl, rfl, rfl⟩
+
+/-- the same inside a struct variant. -/
+theorem witness_reencode_dup_fields_variant :
+    let s : Schema := .enum [69] [.mk [86] (.struct [.mk [97] .u8, .mk [97] .u8])]
+    dynSer fo s (.obj [([86], .obj [([97], .posInt 1), ([98], .posInt 2)])]) = .ok [0, 1, 1] ∧
+    dynDe fo s [0, 1, 1] = .ok (.obj [([86], .obj [([97], .posInt 1)])], []) ∧
+    dynSer fo s (.obj [([86], .obj [([97], .posInt 1)])]) = .error .schemaMismatch := ⟨rfl, rfl, rfl⟩
 
 /-- observation (not a violation of the stated property, which starts from an
 encoder output): the decoder is not injective on maps — duplicate keys are
@@ -546,6 +458,10 @@ example : dynDe fo (.map .string .u8) [2, 1, 97, 1, 1, 97, 2] = .ok (.obj [([97]
 /-- observation: `from_slice_dyn` silently discards trailing bytes. -/
 example : fromSliceDyn fo .u8 [1, 2, 3] = .ok (.posInt 1) := rfl
 
+/-- observation: non-string map keys are refused in both directions. -/
+example : dynSer fo (.map .u8 .u8) (.obj []) = .error .shouldSupportButDont ∧
+    dynDe fo (.map .u8 .u8) [0] = .error .shouldSupportButDont := ⟨rfl, rfl⟩
+
 end Witnesses
 end Postcard
 
@@ -553,52 +469,69 @@ namespace Postcard
 
 /-! ## K. re-encoding -/
 
-/-- extra assumptions on the float conversions used by re-encoding under `F64`:
-integer → f64 conversions give finite f64 bit patterns. -/
+/-- extra assumptions on the float conversions used by re-encoding under `F32`/`F64`:
+integer → f64 conversions give finite f64 bit patterns; `as f32` gives an f32 bit pattern. -/
 structure FloatOk2 (fo : FloatOps) : Prop where
   u64 : ∀ n, fo.u64ToF64 n < 2 ^ 64 ∧ fo.isFinite64 (fo.u64ToF64 n) = true
   i64 : ∀ x, fo.i64ToF64 x < 2 ^ 64 ∧ fo.isFinite64 (fo.i64ToF64 x) = true
+  lt32 : ∀ b, fo.f64ToF32 b < 2 ^ 32
 
 /-- `nullHazard s`: decoding under `s` can yield `null` although the encoder
-accepted a non-null JSON value (`Unit`-like payloads). -/
+accepted a non-null JSON value (`Unit`-like payloads: their encoder ignores the value). -/
 def nullHazard : Schema → Bool
   | .unit => true
   | .option t => nullHazard t
-  | .tuple [] => true
-  | .tuple [t] => nullHazard t
   | .struct _ .unit => true
   | .struct _ (.newtype t) => nullHazard t
-  | .struct _ (.tuple []) => true
-  | .struct _ (.tuple [t]) => nullHazard t
   | _ => false
 
+/-- the declared field names, in order. -/
+def sfieldNames : List SField → List Name
+  | [] => []
+  | .mk n _ :: fs => n :: sfieldNames fs
+
 mutual
-/-- `reencOk s`: the schemas on which `dyn_reencode` is PROVED.  Excluded because
-the current code violates the property there (witnesses above): `F32`
-(overflow to ±inf), `Char`/`Schema` (panic), `Option(t)` with `nullHazard t`,
-tuples / tuple structs of arity 0.  Excluded only because the proof is not
-finished (TODO, no counterexample known other than duplicate field names and
-zero-field tuple variants): `Map`, `Struct{Struct}`, `Enum`. -/
+/-- `reencOk s`: the schemas on which `dyn_reencode` is PROVED.  Excluded, because the
+code violates the property there (UNREPAIRED, witnesses in section I):
+* `Option(t)` with `nullHazard t` (`witness_reencode_option_unit`, `…_nested`);
+* a struct / struct variant with two fields of the same name (only hand-built schemas;
+  `witness_reencode_dup_fields`, `…_variant`).
+`decide (vs.length < 2 ^ 64)` is not an exclusion: a `Box<[OwnedVariant]>` cannot be longer.
+Everything else is covered: `F32` (repair 6), `Char`, `Schema`, tuples of every arity, `Map`
+(non-string keys: the encoder refuses every value), `Struct`, `Enum`. -/
 def reencOk : Schema → Bool
-  | .f32 => false
-  | .char => false
-  | .schema => false
   | .option t => reencOk t && !nullHazard t
   | .seq t => reencOk t
-  | .tuple [] => false
   | .tuple ts => reencOkList ts
-  | .map _ _ => false
-  | .struct _ .unit => true
-  | .struct _ (.newtype t) => reencOk t
-  | .struct _ (.tuple []) => false
-  | .struct _ (.tuple ts) => reencOkList ts
-  | .struct _ (.struct _) => false
-  | .enum _ _ => false
+  | .map k v => (match k with | .string => reencOk v | _ => true)
+  | .struct _ d => reencOkData d
+  | .enum _ vs => decide (vs.length < 2 ^ 64) && reencOkVariants vs
   | _ => true
 def reencOkList : List Schema → Bool
   | [] => true
   | t :: ts => reencOk t && reencOkList ts
+def reencOkData : SData → Bool
+  | .unit => true
+  | .newtype t => reencOk t
+  | .tuple ts => reencOkList ts
+  | .struct fs => namesNodup (sfieldNames fs) && reencOkFields fs
+def reencOkFields : List SField → Bool
+  | [] => true
+  | .mk _ t :: fs => reencOk t && reencOkFields fs
+def reencOkVariants : List SVariant → Bool
+  | [] => true
+  | .mk _ d :: vs => reencOkData d && reencOkVariants vs
 end
+
+end Postcard
+
+namespace Postcard.Dyn
+
+/-- the re-encoding statement for one schema. -/
+def RE (fo : FloatOps) (s : Schema) : Prop :=
+  ∀ (j : Json) (bs rest : List Byte), j.wf fo = true → dynSer fo s j = .ok bs →
+    ∃ j', dynDe fo s (bs ++ rest) = .ok (j', rest) ∧ dynSer fo s j' = .ok bs ∧
+      (nullHazard s = false → j.isNull = false → j'.isNull = false)
 
 theorem asI64_range {fo : FloatOps} {j : Json} {x : Int} (hw : j.wf fo = true)
     (h : j.asI64 = some x) : -(2 ^ 63 : Int) ≤ x ∧ x < (2 ^ 63 : Int) := by
@@ -634,22 +567,12 @@ theorem wfList_mem {fo : FloatOps} : ∀ {xs : List Json}, Json.wfList fo xs = t
     · exact h.1
     · exact wfList_mem h.2 x hx
 
-/-- the re-encoding statement for one schema. -/
-def RE (fo : FloatOps) (s : Schema) : Prop :=
-  ∀ (j : Json) (bs rest : List Byte), j.wf fo = true → dynSer fo s j = .ok bs →
-    ∃ j', dynDe fo s (bs ++ rest) = .ok (j', rest) ∧ dynSer fo s j' = .ok bs ∧
-      (nullHazard s = false → j.isNull = false → j'.isNull = false)
-
 theorem re_signed (fo : FloatOps) (w : IntW) (hw : w ≠ .w8) (x : Int) (hx : w.inRangeI x = true)
     (rest : List Byte) :
     dynTakeVarint w.bits (dynVarint w.bits (dynZigzag w.bits x) ++ rest) = .ok (zigzag w.bits x, rest) ∧
     dynUnzigzag (zigzag w.bits x) = x := by
   rw [dynVarint_eq, dynZigzag_eq]
   exact ⟨de_i_varint w hw x hx rest, de_i_unzig w x hx⟩
-
-end Postcard
-
-namespace Postcard
 
 theorem inRange_of (w : IntW) (x : Int) (h : -(2 ^ (w.bits - 1) : Int) ≤ x ∧ x < (2 ^ (w.bits - 1) : Int)) :
     w.inRangeI x = true := (IntW.inRangeI_iff w x).2 h
@@ -828,6 +751,22 @@ theorem re_string (fo : FloatOps) : RE fo .string := by
   · simp [dynDe, dynVarint_eq, dynTakeVarint_enc widthOk64 hwf.2, dynTakeN_append, hwf.1]
   · simp [dynSer, serStr, Json.asStr]
 
+theorem re_char (fo : FloatOps) : RE fo .char := by
+  intro j bs rest hwf h
+  simp only [dynSer, serStr] at h
+  split at h
+  · simp at h
+  · rename_i u hj
+    have := asStr_eq hj; subst this
+    simp [Json.wf] at hwf
+    cases h1 : oneScalar u
+    · simp [h1] at h
+    · simp [h1] at h
+      subst h
+      refine ⟨.str u, ?_, ?_, fun _ _ => rfl⟩
+      · simp [dynDe, dynVarint_eq, dynTakeVarint_enc widthOk64 hwf.2, dynTakeN_append, hwf.1, h1]
+      · simp [dynSer, serStr, Json.asStr, h1]
+
 theorem serByteElems_ok : ∀ (xs : List Json) (bs : List Byte), serByteElems xs = .ok bs →
     bs.length = xs.length ∧ serByteElems (bs.map fun b => Json.posInt b.toNat) = .ok bs
   | [], bs, h => by simp [serByteElems] at h; subst h; simp [serByteElems]
@@ -859,9 +798,67 @@ theorem re_byteArray (fo : FloatOps) : RE fo .byteArray := by
   · simp [dynDe, dynVarint_eq, ← hok.1, dynTakeVarint_enc widthOk64 hl, dynTakeN_append]
   · simp [dynSer, Json.asArray, hok.2, hok.1]
 
-end Postcard
 
-namespace Postcard
+theorem re_f32 (fo : FloatOps) (h1 : FloatOk fo) (h2 : FloatOk2 fo) : RE fo .f32 := by
+  intro j bs rest hwf h
+  simp only [dynSer] at h
+  split at h <;> simp at h
+  rename_i b hj
+  have hb : b < 2 ^ 64 ∧ fo.isFinite64 b = true := by
+    cases j <;> simp [Json.asF64] at hj
+    · subst hj; exact h2.u64 _
+    · subst hj; exact h2.i64 _
+    · subst hj; simpa [Json.wf] using hwf
+  have hfin : fo.isFinite32 (fo.f64ToF32 b) = true := by
+    cases hc : fo.isFinite32 (fo.f64ToF32 b)
+    · simp [hb.2, hc] at h
+    · rfl
+  simp [hb.2, hfin] at h
+  subst h
+  have hc32 : fo.f64ToF32 b < 2 ^ 32 := h2.lt32 b
+  have hc256 : fo.f64ToF32 b < 256 ^ 4 := by omega
+  refine ⟨.float (fo.f32ToF64 (fo.f64ToF32 b)), ?_, ?_, fun _ _ => rfl⟩
+  · simp [dynDe, dynTakeN_append' _ rest (leBytes_length 4 _), ofLeBytes_leBytes hc256,
+      Json.numFromF64, h1.fin32 _ hc32 hfin]
+  · simp [dynSer, Json.asF64, h1.rt32 _ hc32 hfin, hfin]
+
+theorem re_i128 (fo : FloatOps) : RE fo .i128 := by
+  intro j bs rest hwf h
+  simp only [dynSer] at h
+  split at h
+  · rename_i x hj
+    simp at h; subst h
+    have h63 := asI64_range hwf hj
+    have hin : IntW.w128.inRangeI x = true := by
+      apply inRange_of; simp [IntW.bits]; omega
+    have hr := re_signed fo .w128 (by decide) x hin rest
+    simp only [IntW.bits] at hr
+    refine ⟨Json.ofI64 x, ?_, ?_, fun _ _ => ofI64_not_null x⟩
+    · have hx' : x < 9223372036854775808 := by have := h63.2; simpa using this
+      have hx'' : -9223372036854775808 ≤ x := by have := h63.1; simpa using this
+      simp [dynDe, hr.1, hr.2, hx', hx'']
+    · simp [dynSer, asI64_ofI64 h63.1 h63.2]
+  · rename_i hj
+    split at h <;> simp at h
+    rename_i n hn
+    subst h
+    have hju := asU64R_ok hn
+    have hlt := asU64_range hwf hju
+    have hj' : j = .posInt n := by
+      cases j <;> simp [Json.asU64] at hju
+      subst hju; rfl
+    subst hj'
+    have hbig : ¬ n ≤ 2 ^ 63 - 1 := by
+      intro hle; simp [Json.asI64, hle] at hj
+    have hin : IntW.w128.inRangeI (n : Int) = true := by
+      apply inRange_of; simp [IntW.bits]; omega
+    have hr := re_signed fo .w128 (by decide) (n : Int) hin rest
+    simp only [IntW.bits] at hr
+    refine ⟨.posInt n, ?_, ?_, fun _ _ => rfl⟩
+    · have hx' : ¬ (n : Int) < 9223372036854775808 := by omega
+      have hx'' : (n : Int) < 18446744073709551616 := by omega
+      simp [dynDe, hr.1, hr.2, hx', hx'']
+    · simp [dynSer, hj, asU64R, Json.asU64]
 
 theorem re_all (fo : FloatOps) (t : Schema) (ht : RE fo t) : ∀ (xs : List Json) (bs rest : List Byte),
     Json.wfList fo xs = true → serAll (dynSer fo t) xs = .ok bs →
@@ -890,8 +887,9 @@ def REL (fo : FloatOps) (ts : List Schema) : Prop :=
     ∃ js, dynDeList fo ts (bs ++ rest) = .ok (js, rest) ∧ dynSerZip fo ts js = .ok bs ∧
       js.length = ts.length
 
-/-- the tuple arm (arity ≥ 2, or any arity ≠ 0,1 handled by the caller) from `REL`. -/
+/-- the tuple arms (every arity) from `REL`. -/
 theorem re_of_rel (fo : FloatOps) (s : Schema) (ts : List Schema) (hrel : REL fo ts)
+    (hnh : nullHazard s = false)
     (hs : ∀ j, dynSer fo s j = match j.asArray with
       | none => .error .schemaMismatch
       | some xs => if xs.length ≠ ts.length then .error .schemaMismatch else dynSerZip fo ts xs)
@@ -911,6 +909,523 @@ theorem re_of_rel (fo : FloatOps) (s : Schema) (ts : List Schema) (hrel : REL fo
   · rw [hd, hdl]
   · rw [hs]; simp [Json.asArray, hjl, hsz]
 
+/-! ### maps -/
+
+theorem allKeysGt_congr (k : List Byte) : ∀ (a b : List (List Byte × Json)), keysOf a = keysOf b →
+    allKeysGt k a = allKeysGt k b
+  | [], [], _ => rfl
+  | [], _ :: _, h => by simp [keysOf] at h
+  | _ :: _, [], h => by simp [keysOf] at h
+  | (k1, v1) :: a, (k2, v2) :: b, h => by
+    simp [keysOf] at h
+    obtain ⟨rfl, h⟩ := h
+    simp [allKeysGt, allKeysGt_congr k a b (by simpa [keysOf] using h)]
+
+theorem keysPairwiseLt_congr : ∀ (a b : List (List Byte × Json)), keysOf a = keysOf b →
+    keysPairwiseLt a = keysPairwiseLt b
+  | [], [], _ => rfl
+  | [], _ :: _, h => by simp [keysOf] at h
+  | _ :: _, [], h => by simp [keysOf] at h
+  | (k1, v1) :: a, (k2, v2) :: b, h => by
+    simp [keysOf] at h
+    obtain ⟨rfl, h⟩ := h
+    have h' : keysOf a = keysOf b := by simpa [keysOf] using h
+    simp [keysPairwiseLt, allKeysGt_congr k1 a b h', keysPairwiseLt_congr a b h']
+
+theorem re_kvs (fo : FloatOps) (t : Schema) (ht : RE fo t) :
+    ∀ (kvs : List (List Byte × Json)) (bs rest : List Byte) (acc : List (List Byte × Json)),
+    Json.wfKvs fo kvs = true → serKvs (dynSer fo t) kvs = .ok bs →
+    ∃ kvs', deKvs (dynDe fo t) kvs.length acc (bs ++ rest) = .ok (objInsertAll acc kvs', rest) ∧
+      serKvs (dynSer fo t) kvs' = .ok bs ∧ keysOf kvs' = keysOf kvs
+  | [], bs, rest, acc, _, h => by
+    simp [serKvs] at h; subst h
+    exact ⟨[], by simp [deKvs, objInsertAll], by simp [serKvs], rfl⟩
+  | (k, v) :: more, bs, rest, acc, hw, h => by
+    simp only [serKvs] at h
+    split at h <;> simp at h
+    split at h <;> simp at h
+    rename_i _ a ha _ b hb
+    subst h
+    simp [Json.wfKvs] at hw
+    obtain ⟨⟨⟨hk1, hk2⟩, hv⟩, hmore⟩ := hw
+    obtain ⟨v', hd, hs, _⟩ := ht v a (b ++ rest) hv ha
+    obtain ⟨kvs', hds, hss, hkeys⟩ := re_kvs fo t ht more b rest (objInsert k v' acc) hmore hb
+    refine ⟨(k, v') :: kvs', ?_, ?_, by simp [keysOf] at hkeys ⊢; exact hkeys⟩
+    · simp [deKvs, dynVarint_eq, List.append_assoc, dynTakeVarint_enc widthOk64 hk2, dynTakeN_append,
+        hk1, hd, hds, objInsertAll]
+    · simp [serKvs, hs, hss]
+
+theorem re_map (fo : FloatOps) (t : Schema) (ht : RE fo t) : RE fo (.map .string t) := by
+  intro j bs rest hwf h
+  simp only [dynSer] at h
+  split at h <;> simp at h
+  rename_i kvs hj
+  split at h <;> simp at h
+  rename_i body hb
+  subst h
+  have := asObject_eq hj; subst this
+  simp [Json.wf] at hwf
+  obtain ⟨⟨hlen, hsorted⟩, hwk⟩ := hwf
+  obtain ⟨kvs', hd, hs, hkeys⟩ := re_kvs fo t ht kvs body rest [] hwk hb
+  have hl' : kvs'.length = kvs.length := by
+    have := congrArg List.length hkeys
+    simpa [keysOf] using this
+  have hsorted' : keysPairwiseLt kvs' = true := by rw [keysPairwiseLt_congr kvs' kvs hkeys]; exact hsorted
+  have hins : objInsertAll [] kvs' = kvs' := by
+    have := objInsertAll_sorted kvs' [] (by simp) hsorted'
+    simpa using this
+  rw [hins] at hd
+  refine ⟨.obj kvs', ?_, ?_, fun _ _ => rfl⟩
+  · simp [dynDe, dynVarint_eq, dynTakeVarint_enc widthOk64 hlen, hd]
+  · simp [dynSer, Json.asObject, hs, hl']
+
+/-! ### structs -/
+
+theorem wfKvs_get {fo : FloatOps} {key : List Byte} : ∀ {kvs : List (List Byte × Json)} {v : Json},
+    Json.wfKvs fo kvs = true → objGet key kvs = some v → v.wf fo = true
+  | [], _, _, h => by simp [objGet] at h
+  | (k, v') :: rest, v, hw, h => by
+    simp [Json.wfKvs] at hw
+    simp only [objGet] at h
+    split at h
+    · simp at h; subst h; exact hw.1.2
+    · exact wfKvs_get hw.2 h
+
+/-- named fields: decode yields `objInsertAll acc (names zip values')`, and ANY object that
+has these values under these names re-encodes to the same bytes. -/
+def REF (fo : FloatOps) (fs : List SField) : Prop :=
+  ∀ (kvs : List (List Byte × Json)) (bs rest : List Byte) (acc : List (List Byte × Json)),
+    Json.wfKvs fo kvs = true → dynSerFields fo fs kvs = .ok bs →
+    ∃ vs' : List Json, vs'.length = fs.length ∧
+      dynDeFields fo fs acc (bs ++ rest) = .ok (objInsertAll acc (zipNames (sfieldNames fs) vs'), rest) ∧
+      ∀ obj, GetsAll obj (sfieldNames fs) vs' → dynSerFields fo fs obj = .ok bs
+
+theorem sfieldNames_length : ∀ fs : List SField, (sfieldNames fs).length = fs.length
+  | [] => rfl
+  | .mk _ _ :: fs => by simp [sfieldNames, sfieldNames_length fs]
+
+/-- the object-level consequence of `REF` for distinct field names. -/
+theorem re_struct_obj (fo : FloatOps) (fs : List SField) (hn : namesNodup (sfieldNames fs) = true)
+    (hf : REF fo fs) (kvs : List (List Byte × Json)) (bs rest : List Byte)
+    (hw : Json.wfKvs fo kvs = true) (h : dynSerFields fo fs kvs = .ok bs) :
+    ∃ obj', dynDeFields fo fs [] (bs ++ rest) = .ok (obj', rest) ∧ obj'.length = fs.length ∧
+      dynSerFields fo fs obj' = .ok bs := by
+  obtain ⟨vs', hl, hd, hs⟩ := hf kvs bs rest [] hw h
+  have hlj : (sfieldNames fs).length = vs'.length := by rw [sfieldNames_length, hl]
+  refine ⟨_, hd, ?_, hs _ (getsAll_insertAll _ _ [] hn hlj)⟩
+  rw [length_insertAll _ _ (by rw [keysOf_zipNames _ _ hlj]; exact hn) (by simp [keysOf]),
+    length_zipNames _ _ hlj, sfieldNames_length]
+  simp
+
+theorem re_struct (fo : FloatOps) (nm : Name) (fs : List SField)
+    (hn : namesNodup (sfieldNames fs) = true) (hf : REF fo fs) : RE fo (.struct nm (.struct fs)) := by
+  intro j bs rest hwf h
+  simp only [dynSer] at h
+  split at h <;> simp at h
+  rename_i kvs hj
+  have := asObject_eq hj; subst this
+  simp [Json.wf] at hwf
+  by_cases hlen : kvs.length = fs.length
+  case neg => simp [hlen] at h
+  simp [hlen] at h
+  obtain ⟨obj', hd, hl, hs⟩ := re_struct_obj fo fs hn hf kvs bs rest hwf.2 h
+  refine ⟨.obj obj', ?_, ?_, fun _ _ => rfl⟩
+  · simp [dynDe, hd]
+  · simp [dynSer, Json.asObject, hl, hs]
+
+/-! ### enums -/
+
+/-- what the payload of a variant needs. -/
+def RED (fo : FloatOps) : SData → Prop
+  | .unit => True
+  | .newtype t => RE fo t
+  | .tuple ts => REL fo ts
+  | .struct fs => namesNodup (sfieldNames fs) = true ∧ REF fo fs
+
+theorem dynSerUnitVariant_none (name : Name) : ∀ (vs : List SVariant) (k : Nat),
+    findVariant vs name k = none → dynSerUnitVariant vs k name = .error .schemaMismatch
+  | [], _, _ => rfl
+  | .mk n d :: rest, k, h => by
+    simp only [findVariant] at h
+    split at h
+    · simp at h
+    · rename_i hn
+      simp [dynSerUnitVariant, hn, dynSerUnitVariant_none name rest (k + 1) h]
+
+theorem dynSerVariant_none (fo : FloatOps) (name : Name) (j : Json) : ∀ (vs : List SVariant) (k : Nat),
+    findVariant vs name k = none → dynSerVariant fo vs k name j = .error .schemaMismatch
+  | [], _, _ => by simp [dynSerVariant]
+  | .mk n d :: rest, k, h => by
+    simp only [findVariant] at h
+    split at h
+    · simp at h
+    · rename_i hn
+      rw [dynSerVariant.eq_def]; simp only [hn, if_false]
+      exact dynSerVariant_none fo name j rest (k + 1) h
+
+theorem findVariant_lt (name : Name) (i : Nat) (d : SData) : ∀ (vs : List SVariant) (k : Nat),
+    findVariant vs name k = some (i, d) → i < k + vs.length
+  | [], _, h => by simp [findVariant] at h
+  | .mk n d' :: rest, k, h => by
+    simp only [findVariant] at h
+    split at h
+    · simp at h; simp; omega
+    · have := findVariant_lt name i d rest (k + 1) h; simp; omega
+
+theorem re_enum (fo : FloatOps) (nm : Name) (vs : List SVariant) (hlen : vs.length < 2 ^ 64)
+    (hv : ∀ name i d, findVariant vs name 0 = some (i, d) → RED fo d) : RE fo (.enum nm vs) := by
+  intro j bs rest hwf h
+  simp only [dynSer] at h
+  split at h
+  · -- string form
+    rename_i s hj
+    have := asStr_eq hj; subst this
+    cases hfind : findVariant vs s 0 with
+    | none => rw [dynSerUnitVariant_none s vs 0 hfind] at h; cases h
+    | some p =>
+      obtain ⟨i, d⟩ := p
+      have hi : i < 2 ^ 64 := by have := findVariant_lt s i d vs 0 hfind; omega
+      rw [dynSerUnitVariant_find s i d vs 0 hfind] at h
+      cases d <;> simp [dynSerUnitVariant] at h
+      subst h
+      have hd := dynDeVariant_find fo s i _ rest vs 0 hfind
+      simp only [Nat.sub_zero] at hd
+      refine ⟨.str s, ?_, ?_, fun _ _ => rfl⟩
+      · simp only [dynDe, dynVarint_eq, dynTakeVarint_enc widthOk64 hi, hd]
+        rw [dynDeVariant.eq_def]
+      · simp [dynSer, Json.asStr, dynSerUnitVariant_find s i _ vs 0 hfind, dynSerUnitVariant]
+  · rename_i hnstr
+    split at h
+    · -- object with one entry
+      rename_i k v hj
+      have := asObject_eq hj; subst this
+      simp [Json.wf, Json.wfKvs] at hwf
+      have hvw : v.wf fo = true := hwf.2.2
+      cases hfind : findVariant vs k 0 with
+      | none => rw [dynSerVariant_none fo k v vs 0 hfind] at h; cases h
+      | some p =>
+        obtain ⟨i, d⟩ := p
+        have hi : i < 2 ^ 64 := by have := findVariant_lt k i d vs 0 hfind; omega
+        have hred := hv k i d hfind
+        rw [dynSerVariant_find fo k i d v vs 0 hfind] at h
+        rw [dynSerVariant.eq_def] at h; dsimp only at h; rw [if_pos rfl] at h
+        have hser : ∀ v', dynSer fo (.enum nm vs) (.obj [(k, v')]) = dynSerVariant fo [.mk k d] i k v' := by
+          intro v'
+          simp [dynSer, Json.asStr, Json.asObject, dynSerVariant_find fo k i d v' vs 0 hfind]
+        have hde : ∀ body, dynDe fo (.enum nm vs) (dynVarint 64 i ++ body) =
+            dynDeVariant fo [.mk k d] 0 body := by
+          intro body
+          have hd := dynDeVariant_find fo k i d body vs 0 hfind
+          simp only [Nat.sub_zero] at hd
+          simp only [dynDe, dynVarint_eq, dynTakeVarint_enc widthOk64 hi, hd]
+        cases d with
+        | unit =>
+          simp at h; subst h
+          refine ⟨.str k, ?_, ?_, fun _ _ => rfl⟩
+          · rw [hde, dynDeVariant.eq_def]
+          · simp [dynSer, Json.asStr, dynSerUnitVariant_find k i _ vs 0 hfind, dynSerUnitVariant]
+        | newtype t =>
+          dsimp only at h
+          split at h <;> simp at h
+          rename_i a ha
+          subst h
+          obtain ⟨v', hd', hs', _⟩ := hred v a rest hvw ha
+          refine ⟨.obj [(k, v')], ?_, ?_, fun _ _ => rfl⟩
+          · rw [List.append_assoc, hde, dynDeVariant.eq_def]; simp [hd']
+          · rw [hser, dynSerVariant.eq_def]; simp [hs']
+        | tuple ts =>
+          dsimp only at h
+          split at h <;> simp at h
+          rename_i xs hxs
+          have := asArray_eq hxs; subst this
+          simp [Json.wf] at hvw
+          by_cases hl : xs.length = ts.length
+          case neg => simp [hl] at h
+          simp [hl] at h
+          split at h <;> simp at h
+          rename_i a ha
+          subst h
+          obtain ⟨js, hd', hs', hjl⟩ := hred xs a rest hvw.2 ha hl
+          refine ⟨.obj [(k, .arr js)], ?_, ?_, fun _ _ => rfl⟩
+          · rw [List.append_assoc, hde, dynDeVariant.eq_def]; simp [hd']
+          · rw [hser, dynSerVariant.eq_def]; simp [Json.asArray, hjl, hs']
+        | struct fs =>
+          dsimp only at h
+          split at h <;> simp at h
+          rename_i kvs hkvs
+          have := asObject_eq hkvs; subst this
+          simp [Json.wf] at hvw
+          by_cases hl : kvs.length = fs.length
+          case neg => simp [hl] at h
+          simp [hl] at h
+          split at h <;> simp at h
+          rename_i a ha
+          subst h
+          obtain ⟨obj', hd', hol, hs'⟩ := re_struct_obj fo fs hred.1 hred.2 kvs a rest hvw.2 ha
+          refine ⟨.obj [(k, .obj obj')], ?_, ?_, fun _ _ => rfl⟩
+          · rw [List.append_assoc, hde, dynDeVariant.eq_def]; simp [hd']
+          · rw [hser, dynSerVariant.eq_def]; simp [Json.asObject, hol, hs']
+    · simp at h
+    · simp at h
+
+/-! ### the `Schema` kind -/
+
+theorem jsonOfSchema_not_null (s : Schema) : (jsonOfSchema s).isNull = false := by
+  cases s <;> simp [jsonOfSchema, Json.isNull]
+
+end Postcard.Dyn
+
+namespace Postcard.Dyn
+
+/-! ### well-formedness of the schema read from a well-formed `Value` -/
+
+theorem leaf_wf {k : SchemaKind} {s : Schema} (h : schemaOfUnitKind k = some s) : s.wf = true := by
+  cases k <;> simp [schemaOfUnitKind] at h <;> subst h <;> rfl
+
+theorem nameGet_ok {fo : FloatOps} {key : Name} {kvs : List (List Byte × Json)} {n : Name}
+    (hw : Json.wfKvs fo kvs = true) (h : nameGet key kvs = some n) : nameOk n = true := by
+  unfold nameGet at h
+  split at h
+  · rename_i s hg
+    simp at h; subst h
+    have := wfKvs_get hw hg
+    simpa [Json.wf, nameOk] using this
+  · cases h
+
+mutual
+theorem wf_schema (fo : FloatOps) : (j : Json) → j.wf fo = true → ∀ s, schemaOfJson j = some s →
+    s.wf = true
+  | j, hw, s, h => by
+   rw [schemaOfJson.eq_def] at h
+   split at h
+   · split at h
+     · cases h
+     · exact leaf_wf h
+   · rename_i k v
+     have hv : v.wf fo = true := by simp [Json.wf, Json.wfKvs] at hw; exact hw.2.2
+     split at h
+     · cases h
+     · split at h
+       · rename_i t ht; simp at h; subst h
+         simpa [Schema.wf] using wf_schema fo v hv t ht
+       · cases h
+     · split at h
+       · rename_i t ht; simp at h; subst h
+         simpa [Schema.wf] using wf_schema fo v hv t ht
+       · cases h
+     · split at h
+       · rename_i xs
+         split at h
+         · rename_i ts hts; simp at h; subst h
+           simp [Json.wf] at hv
+           have := wf_list fo xs hv.2 ts hts
+           simp [Schema.wf, this.1, this.2, hv.1]
+         · cases h
+       · cases h
+     · split at h
+       · rename_i kvs
+         simp [Json.wf] at hv
+         split at h
+         · rename_i a b ha hb; simp at h; subst h
+           simp [Schema.wf, wf_sget fo kvs hv.2 _ a ha, wf_sget fo kvs hv.2 _ b hb]
+         · cases h
+       · cases h
+     · split at h
+       · rename_i kvs
+         simp [Json.wf] at hv
+         split at h
+         · rename_i n d hn hd; simp at h; subst h
+           simp [Schema.wf, nameGet_ok hv.2 hn, wf_dget fo kvs hv.2 _ d hd]
+         · cases h
+       · cases h
+     · split at h
+       · rename_i kvs
+         simp [Json.wf] at hv
+         split at h
+         · rename_i n vs hn hvs; simp at h; subst h
+           have := wf_vget fo kvs hv.2 _ vs hvs
+           simp [Schema.wf, nameGet_ok hv.2 hn, this.1, this.2]
+         · cases h
+       · cases h
+     · split at h
+       · exact leaf_wf h
+       · cases h
+   · cases h
+termination_by j => sizeOf j
+theorem wf_list (fo : FloatOps) : (xs : List Json) → Json.wfList fo xs = true → ∀ ts,
+    schemaOfJsonList xs = some ts → Schema.wfList ts = true ∧ ts.length = xs.length
+  | [], _, ts, h => by simp [schemaOfJsonList] at h; subst h; simp [Schema.wfList]
+  | x :: xs, hw, ts, h => by
+    simp [Json.wfList] at hw
+    rw [schemaOfJsonList] at h
+    split at h
+    · rename_i t ts' ht hts; simp at h; subst h
+      have := wf_list fo xs hw.2 ts' hts
+      simp [Schema.wfList, wf_schema fo x hw.1 t ht, this.1, this.2]
+    · cases h
+termination_by xs => sizeOf xs
+theorem wf_sget (fo : FloatOps) : (kvs : List (List Byte × Json)) → Json.wfKvs fo kvs = true →
+    ∀ key s, schemaGet key kvs = some s → s.wf = true
+  | [], _, _, _, h => by simp [schemaGet] at h
+  | (k, v) :: rest, hw, key, s, h => by
+    simp [Json.wfKvs] at hw
+    rw [schemaGet] at h
+    split at h
+    · exact wf_schema fo v hw.1.2 s h
+    · exact wf_sget fo rest hw.2 key s h
+termination_by kvs => sizeOf kvs
+theorem wf_data (fo : FloatOps) : (j : Json) → j.wf fo = true → ∀ d, dataOfJson j = some d →
+    d.wf = true
+  | j, hw, d, h => by
+   rw [dataOfJson.eq_def] at h
+   split at h
+   · split at h
+     · simp at h; subst h; rfl
+     · cases h
+   · rename_i k v
+     have hv : v.wf fo = true := by simp [Json.wf, Json.wfKvs] at hw; exact hw.2.2
+     split at h
+     · cases h
+     · split at h
+       · simp at h; subst h; rfl
+       · cases h
+     · split at h
+       · rename_i t ht; simp at h; subst h
+         simpa [SData.wf] using wf_schema fo v hv t ht
+       · cases h
+     · split at h
+       · rename_i xs
+         split at h
+         · rename_i ts hts; simp at h; subst h
+           simp [Json.wf] at hv
+           have := wf_list fo xs hv.2 ts hts
+           simp [SData.wf, this.1, this.2, hv.1]
+         · cases h
+       · cases h
+     · split at h
+       · rename_i xs
+         split at h
+         · rename_i fs hfs; simp at h; subst h
+           simp [Json.wf] at hv
+           have := wf_fields fo xs hv.2 fs hfs
+           simp [SData.wf, this.1, this.2, hv.1]
+         · cases h
+       · cases h
+   · cases h
+termination_by j => sizeOf j
+theorem wf_dget (fo : FloatOps) : (kvs : List (List Byte × Json)) → Json.wfKvs fo kvs = true →
+    ∀ key d, dataGet key kvs = some d → d.wf = true
+  | [], _, _, _, h => by simp [dataGet] at h
+  | (k, v) :: rest, hw, key, d, h => by
+    simp [Json.wfKvs] at hw
+    rw [dataGet] at h
+    split at h
+    · exact wf_data fo v hw.1.2 d h
+    · exact wf_dget fo rest hw.2 key d h
+termination_by kvs => sizeOf kvs
+theorem wf_field (fo : FloatOps) : (j : Json) → j.wf fo = true → ∀ f, fieldOfJson j = some f →
+    SField.wfList [f] = true
+  | j, hw, f, h => by
+   rw [fieldOfJson.eq_def] at h
+   split at h
+   · rename_i n t
+     simp [Json.wf, Json.wfList] at hw
+     split at h
+     · rename_i ty hty; simp at h; subst h
+       simp [SField.wfList, nameOk, hw.1.1, hw.1.2, wf_schema fo t hw.2 ty hty]
+     · cases h
+   · rename_i kvs
+     simp [Json.wf] at hw
+     split at h
+     · rename_i n ty hn hty; simp at h; subst h
+       simp [SField.wfList, nameGet_ok hw.2 hn, wf_sget fo kvs hw.2 _ ty hty]
+     · cases h
+   · cases h
+termination_by j => sizeOf j
+theorem wf_fields (fo : FloatOps) : (xs : List Json) → Json.wfList fo xs = true → ∀ fs,
+    fieldsOfJsonList xs = some fs → SField.wfList fs = true ∧ fs.length = xs.length
+  | [], _, fs, h => by simp [fieldsOfJsonList] at h; subst h; simp [SField.wfList]
+  | x :: xs, hw, fs, h => by
+    simp [Json.wfList] at hw
+    rw [fieldsOfJsonList] at h
+    split at h
+    · rename_i f fs' hf hfs; simp at h; subst h
+      have := wf_fields fo xs hw.2 fs' hfs
+      have h1 := wf_field fo x hw.1 f hf
+      obtain ⟨n, t⟩ := f
+      simp [SField.wfList] at h1
+      simp [SField.wfList, h1, this.1, this.2]
+    · cases h
+termination_by xs => sizeOf xs
+theorem wf_variant (fo : FloatOps) : (j : Json) → j.wf fo = true → ∀ v, variantOfJson j = some v →
+    SVariant.wfList [v] = true
+  | j, hw, f, h => by
+   rw [variantOfJson.eq_def] at h
+   split at h
+   · rename_i n d
+     simp [Json.wf, Json.wfList] at hw
+     split at h
+     · rename_i data hd; simp at h; subst h
+       simp [SVariant.wfList, nameOk, hw.1.1, hw.1.2, wf_data fo d hw.2 data hd]
+     · cases h
+   · rename_i kvs
+     simp [Json.wf] at hw
+     split at h
+     · rename_i n data hn hd; simp at h; subst h
+       simp [SVariant.wfList, nameGet_ok hw.2 hn, wf_dget fo kvs hw.2 _ data hd]
+     · cases h
+   · cases h
+termination_by j => sizeOf j
+theorem wf_variants (fo : FloatOps) : (xs : List Json) → Json.wfList fo xs = true → ∀ vs,
+    variantsOfJsonList xs = some vs → SVariant.wfList vs = true ∧ vs.length = xs.length
+  | [], _, vs, h => by simp [variantsOfJsonList] at h; subst h; simp [SVariant.wfList]
+  | x :: xs, hw, vs, h => by
+    simp [Json.wfList] at hw
+    rw [variantsOfJsonList] at h
+    split at h
+    · rename_i v vs' hv hvs; simp at h; subst h
+      have := wf_variants fo xs hw.2 vs' hvs
+      have h1 := wf_variant fo x hw.1 v hv
+      obtain ⟨n, d⟩ := v
+      simp [SVariant.wfList] at h1
+      simp [SVariant.wfList, h1, this.1, this.2]
+    · cases h
+termination_by xs => sizeOf xs
+theorem wf_vget (fo : FloatOps) : (kvs : List (List Byte × Json)) → Json.wfKvs fo kvs = true →
+    ∀ key vs, variantsGet key kvs = some vs → SVariant.wfList vs = true ∧ vs.length < 2 ^ 64
+  | [], _, _, _, h => by simp [variantsGet] at h
+  | (k, v) :: rest, hw, key, vs, h => by
+    simp [Json.wfKvs] at hw
+    rw [variantsGet.eq_def] at h; dsimp only at h
+    split at h
+    · split at h
+      · rename_i xs
+        have hv := hw.1.2
+        simp [Json.wf] at hv
+        have := wf_variants fo xs hv.2 vs h
+        exact ⟨this.1, by rw [this.2]; exact hv.1⟩
+      · cases h
+    · exact wf_vget fo rest hw.2 key vs h
+termination_by kvs => sizeOf kvs
+end
+
+theorem re_schema (fo : FloatOps) : RE fo .schema := by
+  intro j bs rest hwf h
+  simp only [dynSer] at h
+  split at h <;> simp at h
+  rename_i s hs
+  subst h
+  have hsw : SchemaWf s := wf_schema fo j hwf s hs
+  refine ⟨jsonOfSchema s, ?_, ?_, fun _ _ => jsonOfSchema_not_null s⟩
+  · simp [dynDe, owned_roundtrip_closed s hsw rest]
+  · simp [dynSer, soj_schema]
+
+end Postcard.Dyn
+
+namespace Postcard.Dyn
+
+/-! ### all schemas -/
+
 /-- unfold one arm of `dynSer` / `dynDe` (the two sides use different but
 definitionally equal matchers). -/
 macro "eqn_ser" : tactic =>
@@ -919,7 +1434,8 @@ macro "eqn_de" : tactic =>
   `(tactic| first | (rw [dynDe]; done) | (rw [dynDe] <;> first | rfl | simp))
 
 mutual
-theorem re_val (fo : FloatOps) (h2 : FloatOk2 fo) : (s : Schema) → reencOk s = true → RE fo s
+theorem re_val (fo : FloatOps) (h1 : FloatOk fo) (h2 : FloatOk2 fo) :
+    (s : Schema) → reencOk s = true → RE fo s
   | .bool, _ => re_bool fo
   | .i8, _ => re_i8 fo
   | .u8, _ => re_u8 fo
@@ -929,9 +1445,7 @@ theorem re_val (fo : FloatOps) (h2 : FloatOk2 fo) : (s : Schema) → reencOk s =
       (fun bs n rest h _ _ => by rw [dynDe]; simp only [IntW.bits] at h; rw [h])
   | .isize, _ => re_asI fo .isize .w64 (by decide) (by decide) (fun _ => by rw [dynSer]; rfl)
       (fun bs n rest h _ _ => by rw [dynDe]; simp only [IntW.bits] at h; rw [h])
-  | .i128, _ => re_asI fo .i128 .w128 (by decide) (by decide) (fun _ => by rw [dynSer]; rfl)
-      (fun bs n rest h h1 h2 => by
-        rw [dynDe]; simp only [IntW.bits] at h; rw [h]; dsimp only; rw [if_pos ⟨h1, h2⟩])
+  | .i128, _ => re_i128 fo
   | .u16, _ => re_getU fo .u16 16 widthOk16 (by decide) (fun _ => by eqn_ser) (fun _ => by eqn_de)
   | .u32, _ => re_getU fo .u32 32 widthOk32 (by decide) (fun _ => by eqn_ser) (fun _ => by eqn_de)
   | .usize, _ => re_getU fo .usize 64 widthOk64 (by decide) (fun _ => by eqn_ser) (fun _ => by eqn_de)
@@ -939,14 +1453,15 @@ theorem re_val (fo : FloatOps) (h2 : FloatOk2 fo) : (s : Schema) → reencOk s =
       (fun bs n rest h _ => by rw [dynDe, h])
   | .u128, _ => re_asU fo .u128 128 widthOk128 (by decide) (fun _ => by eqn_ser)
       (fun bs n rest h hn => by rw [dynDe, h]; simp [hn])
-  | .f32, h => by simp [reencOk] at h
+  | .f32, _ => re_f32 fo h1 h2
   | .f64, _ => re_f64 fo h2
-  | .char, h => by simp [reencOk] at h
+  | .char, _ => re_char fo
   | .string, _ => re_string fo
   | .byteArray, _ => re_byteArray fo
+  | .schema, _ => re_schema fo
   | .option t, h => by
     simp [reencOk] at h
-    have ih := re_val fo h2 t h.1
+    have ih := re_val fo h1 h2 t h.1
     intro j bs rest hwf hs
     rw [dynSer] at hs
     split at hs
@@ -967,7 +1482,7 @@ theorem re_val (fo : FloatOps) (h2 : FloatOk2 fo) : (s : Schema) → reencOk s =
     exact ⟨.null, by simp [dynDe], by simp [dynSer], by simp [nullHazard]⟩
   | .seq t, h => by
     simp [reencOk] at h
-    have ih := re_val fo h2 t h
+    have ih := re_val fo h1 h2 t h
     intro j bs rest hwf hs
     rw [dynSer] at hs
     split at hs <;> simp at hs
@@ -981,53 +1496,50 @@ theorem re_val (fo : FloatOps) (h2 : FloatOk2 fo) : (s : Schema) → reencOk s =
     refine ⟨.arr js, ?_, ?_, fun _ _ => rfl⟩
     · simp [dynDe, dynVarint_eq, dynTakeVarint_enc widthOk64 hwf.1, hd]
     · simp [dynSer, Json.asArray, hs', hl]
-  | .tuple [], h => by simp [reencOk] at h
-  | .tuple [t], h => by
-    simp [reencOk, reencOkList] at h
-    have ih := re_val fo h2 t h
-    intro j bs rest hwf hs
-    rw [dynSer] at hs
-    obtain ⟨j', hd, hs', hnn⟩ := ih j bs rest hwf hs
-    exact ⟨j', by rw [dynDe]; exact hd, by rw [dynSer]; exact hs', by simpa [nullHazard] using hnn⟩
-  | .tuple (t :: t' :: ts), h => by
+  | .tuple ts, h => by
     simp only [reencOk] at h
-    exact re_of_rel fo _ _ (re_list fo h2 _ h) (fun _ => by eqn_ser) (fun _ => by eqn_de)
-  | .map _ _, h => by simp [reencOk] at h
+    exact re_of_rel fo _ _ (re_list fo h1 h2 ts h) rfl (fun _ => by eqn_ser) (fun _ => by eqn_de)
+  | .map k v, h => by
+    match k, h with
+    | .string, h =>
+      simp only [reencOk] at h
+      exact re_map fo v (re_val fo h1 h2 v h)
+    | .bool, _ | .i8, _ | .u8, _ | .i16, _ | .i32, _ | .i64, _ | .i128, _ | .u16, _ | .u32, _
+    | .u64, _ | .u128, _ | .usize, _ | .isize, _ | .f32, _ | .f64, _ | .char, _ | .byteArray, _
+    | .option _, _ | .unit, _ | .seq _, _ | .tuple _, _ | .map _ _, _ | .struct _ _, _
+    | .enum _ _, _ | .schema, _ =>
+      intro j bs rest _ hs
+      simp [dynSer] at hs
   | .struct _ .unit, _ => by
     intro j bs rest _ hs
     simp [dynSer] at hs; subst hs
     exact ⟨.null, by simp [dynDe], by simp [dynSer], by simp [nullHazard]⟩
   | .struct _ (.newtype t), h => by
+    simp [reencOk, reencOkData] at h
+    have ih := re_val fo h1 h2 t h
+    intro j bs rest hwf hs
+    rw [dynSer] at hs
+    obtain ⟨j', hd, hs', hnn⟩ := ih j bs rest hwf hs
+    exact ⟨j', by rw [dynDe]; exact hd, by rw [dynSer]; exact hs', by simpa [nullHazard] using hnn⟩
+  | .struct _ (.tuple ts), h => by
+    simp only [reencOk, reencOkData] at h
+    exact re_of_rel fo _ _ (re_list fo h1 h2 ts h) rfl (fun _ => by eqn_ser) (fun _ => by eqn_de)
+  | .struct nm (.struct fs), h => by
+    simp [reencOk, reencOkData] at h
+    exact re_struct fo nm fs h.1 (re_fields fo h1 h2 fs h.2)
+  | .enum nm vs, h => by
     simp [reencOk] at h
-    have ih := re_val fo h2 t h
-    intro j bs rest hwf hs
-    rw [dynSer] at hs
-    obtain ⟨j', hd, hs', hnn⟩ := ih j bs rest hwf hs
-    exact ⟨j', by rw [dynDe]; exact hd, by rw [dynSer]; exact hs', by simpa [nullHazard] using hnn⟩
-  | .struct _ (.tuple []), h => by simp [reencOk] at h
-  | .struct _ (.tuple [t]), h => by
-    simp [reencOk, reencOkList] at h
-    have ih := re_val fo h2 t h
-    intro j bs rest hwf hs
-    rw [dynSer] at hs
-    obtain ⟨j', hd, hs', hnn⟩ := ih j bs rest hwf hs
-    exact ⟨j', by rw [dynDe]; exact hd, by rw [dynSer]; exact hs', by simpa [nullHazard] using hnn⟩
-  | .struct _ (.tuple (t :: t' :: ts)), h => by
-    simp only [reencOk] at h
-    exact re_of_rel fo _ _ (re_list fo h2 _ h) (fun _ => by eqn_ser) (fun _ => by eqn_de)
-  | .struct _ (.struct _), h => by simp [reencOk] at h
-  | .enum _ _, h => by simp [reencOk] at h
-  | .schema, h => by simp [reencOk] at h
-theorem re_list (fo : FloatOps) (h2 : FloatOk2 fo) : (ts : List Schema) → reencOkList ts = true →
-    REL fo ts
+    exact re_enum fo nm vs h.1 (fun name i d hf => re_variants fo h1 h2 vs h.2 name 0 i d hf)
+theorem re_list (fo : FloatOps) (h1 : FloatOk fo) (h2 : FloatOk2 fo) :
+    (ts : List Schema) → reencOkList ts = true → REL fo ts
   | [], _ => by
     intro xs bs rest _ hs _
     simp [dynSerZip] at hs; subst hs
     exact ⟨[], by simp [dynDeList], by simp [dynSerZip], rfl⟩
   | t :: ts, h => by
     simp [reencOkList] at h
-    have ih := re_val fo h2 t h.1
-    have ihl := re_list fo h2 ts h.2
+    have ih := re_val fo h1 h2 t h.1
+    have ihl := re_list fo h1 h2 ts h.2
     intro xs bs rest hw hs hl
     match xs, hw, hs, hl with
     | [], _, _, hl => simp at hl
@@ -1044,105 +1556,679 @@ theorem re_list (fo : FloatOps) (h2 : FloatOk2 fo) : (ts : List Schema) → reen
       refine ⟨j' :: js, ?_, ?_, by simp [hjl]⟩
       · simp [dynDeList, hd, hds]
       · simp [dynSerZip, hs', hss]
+theorem re_fields (fo : FloatOps) (h1 : FloatOk fo) (h2 : FloatOk2 fo) :
+    (fs : List SField) → reencOkFields fs = true → REF fo fs
+  | [], _ => by
+    intro kvs bs rest acc _ hs
+    simp [dynSerFields] at hs; subst hs
+    exact ⟨[], rfl, by simp [dynDeFields, sfieldNames, zipNames, objInsertAll], fun _ _ => by simp [dynSerFields]⟩
+  | .mk n t :: fs, h => by
+    simp [reencOkFields] at h
+    have ih := re_val fo h1 h2 t h.1
+    have ihl := re_fields fo h1 h2 fs h.2
+    intro kvs bs rest acc hw hs
+    simp only [dynSerFields] at hs
+    split at hs <;> (try simp at hs)
+    rename_i v hget
+    split at hs <;> (try simp at hs)
+    rename_i a ha
+    split at hs <;> simp at hs
+    rename_i b hb
+    subst hs
+    obtain ⟨v', hd, hs', _⟩ := ih v a (b ++ rest) (wfKvs_get hw hget) ha
+    obtain ⟨vs', hl, hds, hss⟩ := ihl kvs b rest (objInsert n v' acc) hw hb
+    refine ⟨v' :: vs', by simp [hl], ?_, ?_⟩
+    · simp [dynDeFields, hd, hds, sfieldNames, zipNames, objInsertAll]
+    · intro obj hg
+      simp only [sfieldNames, GetsAll] at hg
+      simp [dynSerFields, hg.1, hs', hss obj hg.2]
+theorem re_data (fo : FloatOps) (h1 : FloatOk fo) (h2 : FloatOk2 fo) :
+    (d : SData) → reencOkData d = true → RED fo d
+  | .unit, _ => trivial
+  | .newtype t, h => by simp only [reencOkData] at h; exact re_val fo h1 h2 t h
+  | .tuple ts, h => by simp only [reencOkData] at h; exact re_list fo h1 h2 ts h
+  | .struct fs, h => by
+    simp [reencOkData] at h
+    exact ⟨h.1, re_fields fo h1 h2 fs h.2⟩
+theorem re_variants (fo : FloatOps) (h1 : FloatOk fo) (h2 : FloatOk2 fo) :
+    (vs : List SVariant) → reencOkVariants vs = true → ∀ (name : Name) (k i : Nat) (d : SData),
+      findVariant vs name k = some (i, d) → RED fo d
+  | [], _, _, _, _, _, hf => by simp [findVariant] at hf
+  | .mk n d' :: rest, h, name, k, i, d, hf => by
+    simp [reencOkVariants] at h
+    simp only [findVariant] at hf
+    split at hf
+    · simp at hf; obtain ⟨_, rfl⟩ := hf
+      exact re_data fo h1 h2 d' h.1
+    · exact re_variants fo h1 h2 rest h.2 name (k + 1) i d hf
+end
+
+end Postcard.Dyn
+
+namespace Postcard
+
+/-! ## L. allocation bound on the fragment without zero-width `Seq` elements -/
+
+mutual
+/-- a lower bound on the number of bytes any successful decode under the schema consumes. -/
+def minWidth : Schema → Nat
+  | .unit => 0
+  | .f32 => 4
+  | .f64 => 8
+  | .tuple ts => minWidthList ts
+  | .struct _ d => minWidthData d
+  | _ => 1
+def minWidthList : List Schema → Nat
+  | [] => 0
+  | t :: ts => minWidth t + minWidthList ts
+def minWidthData : SData → Nat
+  | .unit => 0
+  | .newtype t => minWidth t
+  | .tuple ts => minWidthList ts
+  | .struct fs => minWidthFields fs
+def minWidthFields : List SField → Nat
+  | [] => 0
+  | .mk _ t :: fs => minWidth t + minWidthFields fs
+end
+
+mutual
+/-- `allocFrag s`: every `Seq` element type has positive minimum width (`0 < minWidth t`), and the
+schema has no `Enum`, `Map` or `Schema` node (restriction of the PROOF, not a finding; see TODO). -/
+def allocFrag : Schema → Bool
+  | .option t => allocFrag t
+  | .seq t => decide (0 < minWidth t) && allocFrag t
+  | .tuple ts => allocFragList ts
+  | .map _ _ => false
+  | .struct _ d => allocFragData d
+  | .enum _ _ => false
+  | .schema => false
+  | _ => true
+def allocFragList : List Schema → Bool
+  | [] => true
+  | t :: ts => allocFrag t && allocFragList ts
+def allocFragData : SData → Bool
+  | .unit => true
+  | .newtype t => allocFrag t
+  | .tuple ts => allocFragList ts
+  | .struct fs => allocFragFields fs
+def allocFragFields : List SField → Bool
+  | [] => true
+  | .mk _ t :: fs => allocFrag t && allocFragFields fs
+end
+
+mutual
+/-- the constant of the bound: `allocDyn fo s bs ≤ allocW s * (bs.length + 1)`.  Linear in the
+size of the schema and its field names, doubled by every `Seq` nesting level. -/
+def allocW : Schema → Nat
+  | .option t => allocW t
+  | .seq t => 2 * allocW t + 1
+  | .tuple ts => allocWList ts + 1
+  | .struct _ d => allocWData d
+  | _ => 1
+def allocWList : List Schema → Nat
+  | [] => 0
+  | t :: ts => allocW t + allocWList ts
+def allocWData : SData → Nat
+  | .unit => 1
+  | .newtype t => allocW t
+  | .tuple ts => allocWList ts + 1
+  | .struct fs => allocWFields fs + 1
+def allocWFields : List SField → Nat
+  | [] => 0
+  | .mk n t :: fs => allocW t + n.length + 1 + allocWFields fs
 end
 
 end Postcard
 
+namespace Postcard.Dyn
+
+theorem allocW_pos : ∀ s : Schema, 1 ≤ allocW s
+  | .option t => by simp [allocW]; exact allocW_pos t
+  | .seq t => by simp [allocW]
+  | .tuple ts => by simp [allocW]
+  | .struct _ .unit => by simp [allocW, allocWData]
+  | .struct _ (.newtype t) => by simp [allocW, allocWData]; exact allocW_pos t
+  | .struct _ (.tuple ts) => by simp [allocW, allocWData]
+  | .struct _ (.struct fs) => by simp [allocW, allocWData]
+  | .bool | .i8 | .u8 | .i16 | .i32 | .i64 | .i128 | .u16 | .u32 | .u64 | .u128 | .usize | .isize
+  | .f32 | .f64 | .char | .string | .byteArray | .unit | .map _ _ | .enum _ _ | .schema => by
+    simp [allocW]
+
+/-- result `res` of a decoder run on `len` bytes with allocation `cost`: on success at least
+`mw` bytes were consumed and `cost ≤ w * (consumed + 1)`; on failure `cost ≤ w * (len + 1)`. -/
+def ABG {α : Type} (res : DR (α × List Byte)) (cost w mw len : Nat) : Prop :=
+  match res with
+  | .ok (_, r) => r.length + mw ≤ len ∧ cost ≤ w * (len - r.length + 1)
+  | .error _ => cost ≤ w * (len + 1)
+
+theorem ABG_ok {α : Type} {a : α} {r : List Byte} {cost w mw len : Nat} (h1 : r.length + mw ≤ len)
+    (h2 : cost ≤ w * (len - r.length + 1)) : ABG (.ok (a, r)) cost w mw len := ⟨h1, h2⟩
+
+theorem ABG_err {α : Type} {e : DynErr} {cost w mw len : Nat} (h : cost ≤ w * (len + 1)) :
+    ABG (.error e : DR (α × List Byte)) cost w mw len := h
+
+/-- the bound in the form of the property, from `ABG`. -/
+theorem ABG_le {α : Type} {res : DR (α × List Byte)} {cost w mw len : Nat} (h : ABG res cost w mw len) :
+    cost ≤ w * (len + 1) := by
+  unfold ABG at h
+  split at h
+  · exact Nat.le_trans h.2 (Nat.mul_le_mul_left _ (by omega))
+  · exact h
+
+theorem dynTakeOne_len {bs r : List Byte} {b : Byte} (h : dynTakeOne bs = .ok (b, r)) :
+    bs.length = r.length + 1 := by
+  cases bs <;> simp [dynTakeOne] at h
+  obtain ⟨_, rfl⟩ := h; simp
+
+theorem dynTakeVarint_len {bits n : Nat} {bs r : List Byte} (h : dynTakeVarint bits bs = .ok (n, r)) :
+    r.length + 1 ≤ bs.length := by
+  rw [dynTakeVarint_eq] at h
+  cases hd : decVarint bits bs with
+  | error e => rw [hd] at h; cases e <;> simp [liftVarintErr] at h
+  | ok p =>
+    rw [hd] at h
+    simp [liftVarintErr] at h
+    subst h
+    have := decVarint_pos hd
+    omega
+
+theorem dynTakeN_len {n : Nat} {bs s r : List Byte} (h : dynTakeN n bs = .ok (s, r)) :
+    bs.length = n + r.length ∧ s.length = n := by
+  unfold dynTakeN at h
+  split at h
+  · cases h
+  · simp at h
+    obtain ⟨rfl, rfl⟩ := h
+    simp; omega
+
+theorem mul_succ_le {w c : Nat} (hc : 1 ≤ c) : w * (c + 1) ≤ 2 * w * c := by
+  have : w ≤ w * c := Nat.le_mul_of_pos_right _ hc
+  rw [Nat.mul_add, Nat.mul_one, Nat.mul_assoc, Nat.two_mul]
+  omega
+
+theorem add_bound {a b w1 w2 x y z : Nat} (ha : a ≤ w1 * (x + 1)) (hb : b ≤ w2 * (y + 1))
+    (hx : x ≤ z) (hy : y ≤ z) : a + b ≤ (w1 + w2) * (z + 1) := by
+  have h1 : w1 * (x + 1) ≤ w1 * (z + 1) := Nat.mul_le_mul_left _ (by omega)
+  have h2 : w2 * (y + 1) ≤ w2 * (z + 1) := Nat.mul_le_mul_left _ (by omega)
+  rw [Nat.add_mul]
+  omega
+
+/-- one-`Value` kinds: `allocDyn = allocLeaf (dynDe …)`, weight 1. -/
+theorem ABG_leaf {fo : FloatOps} {s : Schema} {bs : List Byte} {mw : Nat}
+    (hmw : ∀ j r, dynDe fo s bs = .ok (j, r) → r.length + mw ≤ bs.length) :
+    ABG (dynDe fo s bs) (allocLeaf (dynDe fo s bs)) 1 mw bs.length := by
+  cases hd : dynDe fo s bs with
+  | error e => simp [ABG, allocLeaf]
+  | ok p =>
+    obtain ⟨j, r⟩ := p
+    exact ABG_ok (hmw j r hd) (by simp [allocLeaf])
+
+end Postcard.Dyn
+
+namespace Postcard.Dyn
+
+theorem ABG_shift {α : Type} {res : DR (α × List Byte)} {cost w mw len : Nat}
+    (h : ABG res cost w mw len) : ABG res cost w 1 (len + 1) := by
+  unfold ABG at h ⊢
+  split
+  · rename_i a r
+    simp only at h
+    refine ⟨by omega, Nat.le_trans h.2 (Nat.mul_le_mul_left _ (by omega))⟩
+  · simp only at h
+    exact Nat.le_trans h (Nat.mul_le_mul_left _ (by omega))
+
+theorem seq_step {a b w c y z : Nat} (hc : 1 ≤ c) (ha : a ≤ w * (c + 1)) (hb : b ≤ 2 * w * (y + 1))
+    (hz : z = c + y) : a + b ≤ 2 * w * (z + 1) := by
+  have := mul_succ_le (w := w) hc
+  subst hz
+  rw [show c + y + 1 = c + (y + 1) by omega, Nat.mul_add]
+  omega
+
+theorem list_step {a b w1 w2 c y z : Nat} (ha : a ≤ w1 * (c + 1)) (hb : b ≤ w2 * (y + 1))
+    (hz : z = c + y) : a + b ≤ (w1 + w2) * (z + 1) :=
+  add_bound ha hb (by omega) (by omega)
+
+theorem fields_step {a b w1 w2 k c y z : Nat} (ha : a ≤ w1 * (c + 1)) (hb : b ≤ w2 * (y + 1))
+    (hz : z = c + y) : a + (k + 1 + b) ≤ (w1 + k + 1 + w2) * (z + 1) := by
+  have h1 := list_step ha hb hz
+  have h2 : k + 1 ≤ (k + 1) * (z + 1) := Nat.le_mul_of_pos_right _ (by omega)
+  rw [show w1 + k + 1 + w2 = (w1 + w2) + (k + 1) by omega, Nat.add_mul]
+  omega
+
+/-- unfold the arm of `allocDyn` for the constructor at hand (the catch-all arm's equation has
+side conditions "is none of the earlier constructors"). -/
+macro "alloc_unfold" : tactic => `(tactic| (rw [allocDyn] <;> try (intro a; first | (cases a; done) | (intro b; first | (cases b; done) | (intro c; cases c)))))
+
+syntax "leaf_len" : tactic
+macro_rules
+  | `(tactic| leaf_len) => `(tactic|
+    (intro j r h
+     rw [dynDe] at h
+     split at h
+     · cases h
+     · rename_i hx
+       first
+       | (have hl1 := dynTakeOne_len hx
+          try dsimp only at h
+          (repeat' split at h) <;> (cases h) <;> (simp [minWidth] <;> omega))
+       | (have hl1 := dynTakeVarint_len hx
+          try dsimp only at h
+          (repeat' split at h) <;> (cases h) <;> (simp [minWidth] <;> omega))
+       | (have hl1 := (dynTakeN_len hx).1
+          try dsimp only at h
+          (repeat' split at h) <;> (cases h) <;> (simp [minWidth] <;> omega))))
+
+theorem abN (fo : FloatOps) (t : Schema) (hpos : 0 < minWidth t)
+    (ih : ∀ bs, ABG (dynDe fo t bs) (allocDyn fo t bs) (allocW t) (minWidth t) bs.length) :
+    ∀ (n : Nat) (bs : List Byte),
+      ABG (deN (dynDe fo t) n bs) (allocN (allocDyn fo t) (dynDe fo t) n bs) (2 * allocW t) 0 bs.length
+  | 0, bs => by simp [deN, allocN, ABG]
+  | n + 1, bs => by
+    have h1 := ih bs
+    simp only [deN, allocN]
+    cases hd : dynDe fo t bs with
+    | error e =>
+      rw [hd] at h1; simp only [ABG] at h1 ⊢
+      rw [Nat.mul_assoc, Nat.two_mul]; omega
+    | ok p =>
+      obtain ⟨v, r⟩ := p
+      rw [hd] at h1; simp only [ABG] at h1
+      have h2 := abN fo t hpos ih n r
+      dsimp only
+      cases hd2 : deN (dynDe fo t) n r with
+      | error e =>
+        rw [hd2] at h2; simp only [ABG] at h2 ⊢
+        exact seq_step (c := bs.length - r.length) (y := r.length) (by omega) h1.2 h2 (by omega)
+      | ok q =>
+        obtain ⟨vs, r'⟩ := q
+        rw [hd2] at h2; simp only [ABG] at h2 ⊢
+        refine ⟨by omega, ?_⟩
+        exact seq_step (c := bs.length - r.length) (y := r.length - r'.length) (by omega) h1.2 h2.2 (by omega)
+
+theorem ab_str (fo : FloatOps) (s : Schema) (bs : List Byte)
+    (hd : ∀ j r, dynDe fo s bs = .ok (j, r) → ∃ u, j = .str u ∧ r.length + 1 + u.length ≤ bs.length)
+    (ha : allocDyn fo s bs = match dynDe fo s bs with | .ok (.str u, _) => 1 + u.length | _ => 0) :
+    ABG (dynDe fo s bs) (allocDyn fo s bs) 1 1 bs.length := by
+  rw [ha]
+  cases h : dynDe fo s bs with
+  | error e => simp [ABG]
+  | ok p =>
+    obtain ⟨j, r⟩ := p
+    obtain ⟨u, rfl, hl⟩ := hd j r h
+    exact ABG_ok (by omega) (by simp; omega)
+
+theorem de_string_len (fo : FloatOps) (bs : List Byte) (j : Json) (r : List Byte)
+    (h : dynDe fo .string bs = .ok (j, r)) : ∃ u, j = .str u ∧ r.length + 1 + u.length ≤ bs.length := by
+  rw [dynDe] at h
+  split at h
+  · cases h
+  · rename_i n rest hv
+    split at h
+    · cases h
+    · rename_i u rest' hn
+      have h1 := dynTakeVarint_len hv
+      have h2 := dynTakeN_len hn
+      split at h
+      · simp at h; obtain ⟨rfl, rfl⟩ := h; exact ⟨u, rfl, by omega⟩
+      · cases h
+
+theorem de_char_len (fo : FloatOps) (bs : List Byte) (j : Json) (r : List Byte)
+    (h : dynDe fo .char bs = .ok (j, r)) : ∃ u, j = .str u ∧ r.length + 1 + u.length ≤ bs.length := by
+  rw [dynDe] at h
+  split at h
+  · cases h
+  · rename_i n rest hv
+    split at h
+    · cases h
+    · rename_i u rest' hn
+      have h1 := dynTakeVarint_len hv
+      have h2 := dynTakeN_len hn
+      split at h
+      · split at h
+        · simp at h; obtain ⟨rfl, rfl⟩ := h; exact ⟨u, rfl, by omega⟩
+        · cases h
+      · cases h
+
+theorem ab_byteArray (fo : FloatOps) (bs : List Byte) :
+    ABG (dynDe fo .byteArray bs) (allocDyn fo .byteArray bs) 1 1 bs.length := by
+  rw [allocDyn]
+  cases h : dynDe fo .byteArray bs with
+  | error e => simp [ABG]
+  | ok p =>
+    obtain ⟨j, r⟩ := p
+    rw [dynDe] at h
+    split at h
+    · cases h
+    · rename_i n rest hv
+      split at h
+      · cases h
+      · rename_i u rest' hn
+        have h1 := dynTakeVarint_len hv
+        have h2 := dynTakeN_len hn
+        simp at h; obtain ⟨rfl, rfl⟩ := h
+        exact ABG_ok (by omega) (by simp; omega)
+
+mutual
+theorem ab_val (fo : FloatOps) : (s : Schema) → allocFrag s = true → ∀ bs : List Byte,
+    ABG (dynDe fo s bs) (allocDyn fo s bs) (allocW s) (minWidth s) bs.length
+  | .bool, _, bs => by alloc_unfold; exact ABG_leaf (by leaf_len)
+  | .i8, _, bs => by alloc_unfold; exact ABG_leaf (by leaf_len)
+  | .u8, _, bs => by alloc_unfold; exact ABG_leaf (by leaf_len)
+  | .i16, _, bs => by alloc_unfold; exact ABG_leaf (by leaf_len)
+  | .i32, _, bs => by alloc_unfold; exact ABG_leaf (by leaf_len)
+  | .i64, _, bs => by alloc_unfold; exact ABG_leaf (by leaf_len)
+  | .i128, _, bs => by alloc_unfold; exact ABG_leaf (by leaf_len)
+  | .u16, _, bs => by alloc_unfold; exact ABG_leaf (by leaf_len)
+  | .u32, _, bs => by alloc_unfold; exact ABG_leaf (by leaf_len)
+  | .u64, _, bs => by alloc_unfold; exact ABG_leaf (by leaf_len)
+  | .u128, _, bs => by alloc_unfold; exact ABG_leaf (by leaf_len)
+  | .usize, _, bs => by alloc_unfold; exact ABG_leaf (by leaf_len)
+  | .isize, _, bs => by alloc_unfold; exact ABG_leaf (by leaf_len)
+  | .f32, _, bs => by alloc_unfold; exact ABG_leaf (by leaf_len)
+  | .f64, _, bs => by alloc_unfold; exact ABG_leaf (by leaf_len)
+  | .unit, _, bs => by
+    alloc_unfold; exact ABG_leaf (by intro j r h; rw [dynDe] at h; simp at h; obtain ⟨_, rfl⟩ := h; simp [minWidth])
+  | .struct _ .unit, _, bs => by
+    alloc_unfold
+    exact ABG_leaf (by intro j r h; rw [dynDe] at h; simp at h; obtain ⟨_, rfl⟩ := h; simp [minWidth, minWidthData])
+  | .char, _, bs => ab_str fo .char bs (de_char_len fo bs) (by rw [allocDyn]; rfl)
+  | .string, _, bs => ab_str fo .string bs (de_string_len fo bs) (by rw [allocDyn]; rfl)
+  | .byteArray, _, bs => ab_byteArray fo bs
+  | .option t, h, bs => by
+    simp only [allocFrag] at h
+    have ih := ab_val fo t h
+    simp only [allocW, minWidth]
+    match bs with
+    | [] => simp [allocDyn, dynDe, dynTakeOne, ABG]
+    | b :: rest =>
+      rw [allocDyn, dynDe]; simp only [dynTakeOne]
+      by_cases hb0 : b = 0
+      · have := allocW_pos t
+        simp only [hb0, if_true, ABG]
+        refine ⟨by simp, ?_⟩
+        exact Nat.le_trans this (Nat.le_mul_of_pos_right _ (by omega))
+      · by_cases hb1 : b = 1
+        · simp only [hb0, hb1, if_true, if_false]
+          exact ABG_shift (ih rest)
+        · simp [hb0, hb1, ABG]
+  | .struct _ (.newtype t), h, bs => by
+    simp only [allocFrag, allocFragData] at h
+    rw [allocDyn, dynDe]
+    simp only [allocW, allocWData, minWidth, minWidthData]
+    exact ab_val fo t h bs
+  | .seq t, h, bs => by
+    simp [allocFrag] at h
+    have ih := ab_val fo t h.2
+    rw [allocDyn]
+    simp only [allocW, minWidth]
+    cases hv : dynTakeVarint 64 bs with
+    | error e => simp [dynDe, hv, ABG]
+    | ok p =>
+      obtain ⟨n, rest⟩ := p
+      have hl := dynTakeVarint_len hv
+      have hN := abN fo t h.1 ih n rest
+      simp only [dynDe, hv]
+      cases hd : deN (dynDe fo t) n rest with
+      | error e =>
+        rw [hd] at hN; simp only [ABG, allocLeaf] at hN ⊢
+        have : 2 * allocW t * (rest.length + 1) ≤ 2 * allocW t * (bs.length + 1) :=
+          Nat.mul_le_mul_left _ (by omega)
+        rw [Nat.add_mul]; omega
+      | ok q =>
+        obtain ⟨vs, r'⟩ := q
+        rw [hd] at hN; simp only [ABG, allocLeaf] at hN ⊢
+        refine ⟨by omega, ?_⟩
+        have : 2 * allocW t * (rest.length - r'.length + 1) ≤ 2 * allocW t * (bs.length - r'.length + 1) :=
+          Nat.mul_le_mul_left _ (by omega)
+        rw [Nat.add_mul]; omega
+  | .tuple ts, h, bs => by
+    simp only [allocFrag] at h
+    have ihl := ab_list fo ts h bs
+    rw [allocDyn, dynDe]
+    simp only [allocW, minWidth]
+    cases hd : dynDeList fo ts bs with
+    | error e =>
+      rw [hd] at ihl; simp only [ABG, allocLeaf] at ihl ⊢
+      rw [Nat.add_mul]; omega
+    | ok q =>
+      obtain ⟨vs, r'⟩ := q
+      rw [hd] at ihl; simp only [ABG, allocLeaf] at ihl ⊢
+      refine ⟨ihl.1, ?_⟩
+      rw [Nat.add_mul]; omega
+  | .struct _ (.tuple ts), h, bs => by
+    simp only [allocFrag, allocFragData] at h
+    have ihl := ab_list fo ts h bs
+    rw [allocDyn, dynDe]
+    simp only [allocW, allocWData, minWidth, minWidthData]
+    cases hd : dynDeList fo ts bs with
+    | error e =>
+      rw [hd] at ihl; simp only [ABG, allocLeaf] at ihl ⊢
+      rw [Nat.add_mul]; omega
+    | ok q =>
+      obtain ⟨vs, r'⟩ := q
+      rw [hd] at ihl; simp only [ABG, allocLeaf] at ihl ⊢
+      refine ⟨ihl.1, ?_⟩
+      rw [Nat.add_mul]; omega
+  | .struct _ (.struct fs), h, bs => by
+    simp only [allocFrag, allocFragData] at h
+    have ihl := ab_fields fo fs h [] bs
+    rw [allocDyn, dynDe]
+    simp only [allocW, allocWData, minWidth, minWidthData]
+    cases hd : dynDeFields fo fs [] bs with
+    | error e =>
+      rw [hd] at ihl; simp only [ABG, allocLeaf] at ihl ⊢
+      rw [Nat.add_mul]; omega
+    | ok q =>
+      obtain ⟨vs, r'⟩ := q
+      rw [hd] at ihl; simp only [ABG, allocLeaf] at ihl ⊢
+      refine ⟨ihl.1, ?_⟩
+      rw [Nat.add_mul]; omega
+  | .map _ _, h, _ => by simp [allocFrag] at h
+  | .enum _ _, h, _ => by simp [allocFrag] at h
+  | .schema, h, _ => by simp [allocFrag] at h
+theorem ab_list (fo : FloatOps) : (ts : List Schema) → allocFragList ts = true → ∀ bs : List Byte,
+    ABG (dynDeList fo ts bs) (allocList fo ts bs) (allocWList ts) (minWidthList ts) bs.length
+  | [], _, bs => by simp [dynDeList, allocList, ABG, minWidthList]
+  | t :: ts, h, bs => by
+    simp [allocFragList] at h
+    have h1 := ab_val fo t h.1 bs
+    simp only [dynDeList, allocList, allocWList, minWidthList]
+    cases hd : dynDe fo t bs with
+    | error e =>
+      rw [hd] at h1; simp only [ABG] at h1 ⊢
+      rw [Nat.add_mul]; omega
+    | ok p =>
+      obtain ⟨v, r⟩ := p
+      rw [hd] at h1; simp only [ABG] at h1
+      have h2 := ab_list fo ts h.2 r
+      dsimp only
+      cases hd2 : dynDeList fo ts r with
+      | error e =>
+        rw [hd2] at h2; simp only [ABG] at h2 ⊢
+        exact list_step (c := bs.length - r.length) (y := r.length) h1.2 h2 (by omega)
+      | ok q =>
+        obtain ⟨vs, r'⟩ := q
+        rw [hd2] at h2; simp only [ABG] at h2 ⊢
+        refine ⟨by omega, ?_⟩
+        exact list_step (c := bs.length - r.length) (y := r.length - r'.length) h1.2 h2.2 (by omega)
+theorem ab_fields (fo : FloatOps) : (fs : List SField) → allocFragFields fs = true →
+    ∀ (acc : List (List Byte × Json)) (bs : List Byte),
+    ABG (dynDeFields fo fs acc bs) (allocFields fo fs bs) (allocWFields fs) (minWidthFields fs) bs.length
+  | [], _, acc, bs => by simp [dynDeFields, allocFields, ABG, minWidthFields]
+  | .mk name t :: fs, h, acc, bs => by
+    simp [allocFragFields] at h
+    have h1 := ab_val fo t h.1 bs
+    simp only [dynDeFields, allocFields, allocWFields, minWidthFields]
+    cases hd : dynDe fo t bs with
+    | error e =>
+      rw [hd] at h1; simp only [ABG] at h1 ⊢
+      have : allocW t * (bs.length + 1) ≤ (allocW t + name.length + 1 + allocWFields fs) * (bs.length + 1) :=
+        Nat.mul_le_mul_right _ (by omega)
+      omega
+    | ok p =>
+      obtain ⟨v, r⟩ := p
+      rw [hd] at h1; simp only [ABG] at h1
+      have h2 := ab_fields fo fs h.2 (objInsert name v acc) r
+      dsimp only
+      cases hd2 : dynDeFields fo fs (objInsert name v acc) r with
+      | error e =>
+        rw [hd2] at h2; simp only [ABG] at h2 ⊢
+        exact fields_step (c := bs.length - r.length) (y := r.length) h1.2 h2 (by omega)
+      | ok q =>
+        obtain ⟨vs, r'⟩ := q
+        rw [hd2] at h2; simp only [ABG] at h2 ⊢
+        refine ⟨by omega, ?_⟩
+        exact fields_step (c := bs.length - r.length) (y := r.length - r'.length) h1.2 h2.2 (by omega)
+end
+
+end Postcard.Dyn
+
 namespace Postcard
+open Dyn
 
-/-! ## L. C18 — the property theorems -/
+/-! ## M. C18 — the property theorems -/
 
-/-
-FULL STATEMENTS (what C18 asks for).  All three are FALSE of the current code
-(refuted: `dyn_total_false`, `dyn_alloc_bound_false`, `dyn_reencode_false` and
-the `witness_reencode_*` theorems):
+/-- C18 totality, FULL: for EVERY schema, JSON value (even ill-formed) and byte string, neither
+direction panics.  (No `todo!()` is left; the only `.panic` in the model is the fuel of
+`decOwned`, unreachable by `Dyn.decOwnedBytes_no_panic`.)
 
+NOTE (unrepaired finding, outside the model): the statement is relative to an unbounded
+stack.  On the real crate the `Schema` kind decodes a schema VALUE recursively
+(`postcard::take_from_bytes::<OwnedDataModelType>`, `serde_json::to_value`, `Drop`), without
+a depth limit: `from_slice_dyn(&Schema, [18; N] ++ [0])` (N nested `Option`s) aborts the
+process with a stack overflow for N ≈ 4.5k (debug) / 30k (release) on an 8 MiB stack. -/
 theorem dyn_total (fo : FloatOps) (s : Schema) (j : Json) (bs : List Byte) :
-    dynSer fo s j ≠ .error .panic ∧ dynDe fo s bs ≠ .error .panic
-
-theorem dyn_alloc_bound : ∃ K C, ∀ (fo : FloatOps) (s : Schema) (bs : List Byte),
-    allocDyn fo s bs ≤ K * bs.length + C        -- (or with K, C depending on `s`)
-
-theorem dyn_reencode (fo : FloatOps) (s : Schema) (j : Json) (bs : List Byte)
-    (hw : j.wf fo = true) (h : dynSer fo s j = .ok bs) :
-    ∃ j', dynDe fo s bs = .ok (j', []) ∧ dynSer fo s j' = .ok bs
--/
-
-/-- `NoPanicKinds de s` — the exclusion predicate of `dyn_total_partial`. -/
-def NoPanicKinds (de : Bool) (s : Schema) : Prop := noPanicKinds de s = true
-
-/-- C18 totality, encoding: no `Schema` node reachable ⇒ never panics (any JSON, even ill-formed). -/
-theorem dyn_ser_total_partial (fo : FloatOps) (s : Schema) (j : Json) (h : NoPanicKinds false s) :
-    dynSer fo s j ≠ .error .panic := np_ser fo s h j
-
-/-- C18 totality, decoding: no `Schema` and no `Char` node reachable ⇒ never panics (any bytes). -/
-theorem dyn_de_total_partial (fo : FloatOps) (s : Schema) (bs : List Byte) (h : NoPanicKinds true s) :
-    dynDe fo s bs ≠ .error .panic := np_de fo s h bs
-
-theorem dyn_total_partial (fo : FloatOps) (s : Schema) (j : Json) (bs : List Byte)
-    (hs : NoPanicKinds false s) (hd : NoPanicKinds true s) :
     dynSer fo s j ≠ .error .panic ∧ dynDe fo s bs ≠ .error .panic :=
-  ⟨np_ser fo s hs j, np_de fo s hd bs⟩
+  ⟨np_ser fo s j, np_de fo s bs⟩
 
-/-- panics only come from the two `todo!()` kinds (necessary condition; the exact
-"iff" needs a reachability predicate because e.g. `Option(Schema)` panics on
-`[1]` but not on `[0]`, and `Map{key: Char, ..}` never panics — see witnesses).
-At the kinds themselves it is an iff: `dynDe_char_panics`, `dynDe_schema_panics`,
-`dynSer_schema_panics` hold for EVERY input. -/
-theorem dyn_ser_panics_only_if (fo : FloatOps) (s : Schema) (j : Json)
-    (h : dynSer fo s j = .error .panic) : noPanicKinds false s = false := by
-  cases hk : noPanicKinds false s
-  · rfl
-  · exact absurd h (np_ser fo s hk j)
+theorem dyn_ser_total (fo : FloatOps) (s : Schema) (j : Json) : dynSer fo s j ≠ .error .panic :=
+  np_ser fo s j
 
-theorem dyn_de_panics_only_if (fo : FloatOps) (s : Schema) (bs : List Byte)
-    (h : dynDe fo s bs = .error .panic) : noPanicKinds true s = false := by
-  cases hk : noPanicKinds true s
-  · rfl
-  · exact absurd h (np_de fo s hk bs)
+theorem dyn_de_total (fo : FloatOps) (s : Schema) (bs : List Byte) : dynDe fo s bs ≠ .error .panic :=
+  np_de fo s bs
 
-/-- the public decoding entry never panics either. -/
-theorem fromSliceDyn_total_partial (fo : FloatOps) (s : Schema) (bs : List Byte)
-    (h : NoPanicKinds true s) : fromSliceDyn fo s bs ≠ .error .panic := by
-  have := np_de fo s h bs
+/-- the public entry points never panic either. -/
+theorem fromSliceDyn_total (fo : FloatOps) (s : Schema) (bs : List Byte) :
+    fromSliceDyn fo s bs ≠ .error .panic := by
+  have := np_de fo s bs
   unfold fromSliceDyn
   split
   · rename_i e he; intro h'; cases h'; exact this he
   · simp
 
-/-- C18 re-encoding on the domain `reencOk s` (see its doc comment for what is
-excluded and why), for well-formed JSON (`Json.wf`: what a `serde_json::Value`
-can be) and float conversions that send integers to finite f64s. -/
-theorem dyn_reencode_partial (fo : FloatOps) (h2 : FloatOk2 fo) (s : Schema) (j : Json)
-    (bs : List Byte) (hs : reencOk s = true) (hw : j.wf fo = true) (h : dynSer fo s j = .ok bs) :
+theorem toStdvecDyn_total (fo : FloatOps) (s : Schema) (j : Json) :
+    toStdvecDyn fo s j ≠ .error .panic := np_ser fo s j
+
+/-- `postcard::take_from_bytes::<OwnedDataModelType>` as modelled never exhausts its fuel. -/
+theorem decOwnedBytes_total (bs : List Byte) : decOwnedBytes bs ≠ .error .panic :=
+  decOwnedBytes_no_panic bs
+
+/-- C18 re-encoding on the domain `reencOk s` (see its doc comment: everything except
+`Option(t)` with `nullHazard t` and structs with duplicate field names — both refuted on
+the full domain, `dyn_reencode_false`), for well-formed JSON (`Json.wf`: what a
+`serde_json::Value` can be) and float conversions that round-trip f32 → f64 → f32, send
+integers to finite f64s and `as f32` to f32 bit patterns.  Includes the `Schema` kind. -/
+theorem dyn_reencode_partial (fo : FloatOps) (h1 : FloatOk fo) (h2 : FloatOk2 fo) (s : Schema)
+    (j : Json) (bs : List Byte) (hs : reencOk s = true) (hw : j.wf fo = true)
+    (h : dynSer fo s j = .ok bs) :
     ∃ j', dynDe fo s bs = .ok (j', []) ∧ dynSer fo s j' = .ok bs := by
-  obtain ⟨j', hd, hs', _⟩ := re_val fo h2 s hs j bs [] hw h
+  obtain ⟨j', hd, hs', _⟩ := re_val fo h1 h2 s hs j bs [] hw h
   exact ⟨j', by simpa using hd, hs'⟩
 
-/-- the full re-encoding statement is false: `Tuple([])` with `[]`. -/
+/-- the same with trailing bytes: the decoder consumes exactly the encoder's output. -/
+theorem dyn_reencode_partial_rest (fo : FloatOps) (h1 : FloatOk fo) (h2 : FloatOk2 fo) (s : Schema)
+    (j : Json) (bs rest : List Byte) (hs : reencOk s = true) (hw : j.wf fo = true)
+    (h : dynSer fo s j = .ok bs) :
+    ∃ j', dynDe fo s (bs ++ rest) = .ok (j', rest) ∧ dynSer fo s j' = .ok bs := by
+  obtain ⟨j', hd, hs', _⟩ := re_val fo h1 h2 s hs j bs rest hw h
+  exact ⟨j', hd, hs'⟩
+
+/-- a `FloatOps` satisfying `FloatOk` and `FloatOk2` (non-vacuity; used by the refutations). -/
+def foOk : FloatOps := ⟨fun b => b % 2 ^ 32, id, fun _ => 0, fun _ => 0, fun _ => true, fun _ => true⟩
+theorem foOk_ok : FloatOk foOk := ⟨fun b hb _ => Nat.mod_eq_of_lt hb, fun _ _ _ => rfl⟩
+theorem foOk_ok2 : FloatOk2 foOk :=
+  ⟨fun _ => ⟨by show (0 : Nat) < 2 ^ 64; decide, rfl⟩, fun _ => ⟨by show (0 : Nat) < 2 ^ 64; decide, rfl⟩,
+    fun b => Nat.mod_lt _ (by decide)⟩
+
+/-- UNREPAIRED: the full re-encoding statement is false — `Option(Unit)` with the JSON value `5`
+(`[1]` decodes to `null`, which re-encodes to `[0]`). -/
 theorem dyn_reencode_false :
-    ¬ (∀ (fo : FloatOps) (s : Schema) (j : Json) (bs : List Byte), j.wf fo = true →
-        dynSer fo s j = .ok bs → ∃ j', dynDe fo s bs = .ok (j', []) ∧ dynSer fo s j' = .ok bs) := by
+    ¬ (∀ (fo : FloatOps), FloatOk fo → FloatOk2 fo → ∀ (s : Schema) (j : Json) (bs : List Byte),
+        j.wf fo = true → dynSer fo s j = .ok bs →
+        ∃ j', dynDe fo s bs = .ok (j', []) ∧ dynSer fo s j' = .ok bs) := by
   intro h
-  obtain ⟨j', hd, hs⟩ := h foTrivial (.tuple []) (.arr []) [] (by decide) rfl
-  have : dynDe foTrivial (.tuple []) [] = .ok (.null, []) := rfl
+  obtain ⟨j', hd, hs⟩ := h foOk foOk_ok foOk_ok2 (.option .unit) (.posInt 5) [1] (by decide) rfl
+  have : dynDe foOk (.option .unit) [1] = .ok (.null, []) := rfl
   rw [this] at hd
   cases hd
   cases hs
 
+/-- UNREPAIRED (hand-built schemas only): it is also false without any `Option`, for a struct
+with two fields of the same name. -/
+theorem dyn_reencode_false_dup_fields :
+    ¬ (∀ (fo : FloatOps), FloatOk fo → FloatOk2 fo → ∀ (s : Schema) (j : Json) (bs : List Byte),
+        (∀ t, s ≠ .option t) → j.wf fo = true → dynSer fo s j = .ok bs →
+        ∃ j', dynDe fo s bs = .ok (j', []) ∧ dynSer fo s j' = .ok bs) := by
+  intro h
+  obtain ⟨j', hd, hs⟩ := h foOk foOk_ok foOk_ok2 (.struct [83] (.struct [.mk [97] .u8, .mk [97] .u8]))
+    (.obj [([97], .posInt 1), ([98], .posInt 2)]) [1, 1] (by intro t ht; cases ht) (by decide) rfl
+  have : dynDe foOk (.struct [83] (.struct [.mk [97] .u8, .mk [97] .u8])) [1, 1] =
+      .ok (.obj [([97], .posInt 1)], []) := rfl
+  rw [this] at hd
+  cases hd
+  cases hs
+
+/-- the exclusions of `reencOk` are exactly these two shapes: examples inside / outside. -/
+example : reencOk (.option .unit) = false ∧ reencOk (.option (.option .u8)) = true ∧
+    reencOk (.struct [83] (.struct [.mk [97] .u8, .mk [97] .u8])) = false ∧
+    reencOk (.tuple [.f32, .char, .schema, .tuple [], .tuple [.unit], .map .string (.seq .unit),
+      .map .u8 .u8, .enum [69] [.mk [65] .unit, .mk [66] (.tuple []), .mk [67] (.struct [.mk [97] .i128])]])
+      = true := by decide
+
+end Postcard
+
+namespace Postcard
+open Dyn
+
+/-- C18 allocation bound on the fragment `allocFrag s` (every `Seq` element type has positive
+minimum encoded width; no `Enum`, `Map`, `Schema` node — the latter three only because the proof
+is not extended to them, see TODO): what `deserialize(s, bs)` allocates (as `allocDyn` counts:
+`Value`s, `String` bytes, map entries), whether it succeeds or fails, is at most
+`K * bs.length + C` with the explicit constants `K = C = allocW s` (1 per scalar node, plus the
+field names, doubled by each `Seq` level).  `alloc_seq_unit` / `dyn_alloc_bound_false` show that
+the restriction on `Seq` elements is necessary (unrepaired finding). -/
+theorem dyn_alloc_bound_partial_frag (fo : FloatOps) (s : Schema) (hs : allocFrag s = true)
+    (bs : List Byte) : allocDyn fo s bs ≤ allocW s * bs.length + allocW s := by
+  have := ABG_le (ab_val fo s hs bs)
+  rw [Nat.mul_add, Nat.mul_one] at this
+  exact this
+
+/-- on the same fragment a successful decode consumes at least `minWidth s` bytes and never
+returns more bytes than it was given. -/
+theorem dyn_de_consumes_frag (fo : FloatOps) (s : Schema) (hs : allocFrag s = true)
+    (bs : List Byte) (j : Json) (r : List Byte) (h : dynDe fo s bs = .ok (j, r)) :
+    r.length + minWidth s ≤ bs.length := by
+  have := ab_val fo s hs bs
+  rw [h] at this
+  exact this.1
+
+example : allocW (.seq .u8) = 3 ∧ allocW (.seq (.seq .string)) = 7 ∧
+    allocW (.struct [83] (.struct [.mk [97, 98] .u8, .mk [99] (.seq .bool)])) = 10 := by decide
+example : allocFrag (.seq (.struct [83] (.struct [.mk [97] .u8, .mk [98] (.option (.tuple []))]))) = true ∧
+    allocFrag (.seq .unit) = false ∧ allocFrag (.seq (.tuple [])) = false ∧
+    allocFrag (.seq (.struct [83] .unit)) = false := by decide
+
 /-
 TODO (not proved; statements kept for the next round):
 
-* dyn_alloc_bound_partial: for schemas in which every `Seq` element type has a
-  positive minimum encoded width,
-    allocDyn fo s bs ≤ K s * bs.length + C s
-  with `K s`, `C s` linear in `Schema.size s`.  Needs "dynDe consumes at least
-  minWidth bytes".  (`alloc_seq_unit` / `dyn_alloc_bound_false` show the
-  restriction is necessary.)
-* dyn_reencode_partial for `Map`, `Struct{Struct}` (distinct field names) and
-  `Enum` (no zero-field tuple variants, distinct field names, < 2^64 variants):
-  `reencOk` currently answers `false` there only because the proof is unfinished.
-* exact panic characterisation (`dyn_de_panics_iff`) through a reachability predicate.
+* dyn_alloc_bound_partial in full: extend `allocFrag` / `ab_val` to `Map` (every entry consumes
+  ≥ 1 byte for the key length, so no restriction on the value type is needed), `Enum` (weight:
+  max over variants of name length + 3 + payload weight) and the `Schema` kind (needs
+  `(jsonOfSchema s).cost ≤ K * consumed bytes`, K ≈ 40, by induction on `decOwned`).  With
+  `minWidthPos s` := "every `Seq` element type in `s` has `0 < minWidth`", the target is
+    minWidthPos s = true → allocDyn fo s bs ≤ allocW s * bs.length + allocW s.
+* exact characterisation of the re-encoding failures (`reencOk s = false → ∃ j, …`); currently
+  the two excluded shapes come with witnesses, not with a general converse.
 -/
 
 end Postcard
